@@ -28,43 +28,109 @@ namespace U3.Pool
 def cellTag : Cell → Tag
   | .hd t _ => t
   | .body t _ => t
+  | .fr t _ => t
 
-/-- what the server sends after the head, for attempt `a` of request `rid` -/
-def bodyCells (rid : Nat) (a : Attempt) : List Cell :=
-  a.body.map (Cell.body (.req rid)) ++ a.stray.map (Cell.body .stray)
+/-- the payload of attempt `a` of request `rid` as the server tags it -/
+def payloadCells (rid : Nat) (a : Attempt) : List Cell := a.body.map (Cell.body (.req rid))
 
-def headCells (rid : Nat) (n : Nat) (h : Head) : List Cell :=
-  List.replicate (n - 1) (Cell.hd (.req rid) none) ++ [Cell.hd (.req rid) (some h)]
+def strayCells (a : Attempt) : List Cell := a.stray.map (Cell.body .stray)
 
-theorem serverCells_some {rid : Nat} {a : Attempt} {h : Head} (hh : a.head = some h) :
-    serverCells rid a = headCells rid a.headLen h ++ bodyCells rid a := by
-  simp [serverCells, hh, headCells, bodyCells]
+/-- payload and unsolicited bytes: what a reader of a reply that is not chunked may be handed -/
+def bodyCells (rid : Nat) (a : Attempt) : List Cell := payloadCells rid a ++ strayCells a
+
+theorem postCells_plain {rid : Nat} {a : Attempt} {h : Head} (hc : h.chunked = false) :
+    postCells rid a h = bodyCells rid a := by
+  simp [postCells, framedCells, hc, bodyCells, payloadCells, strayCells]
 
 theorem serverCells_none {rid : Nat} {a : Attempt} (hh : a.head = none) : serverCells rid a = [] := by
   simp [serverCells, hh]
+
+theorem serverNow_none {rid : Nat} {a : Attempt} (hh : a.head = none) : serverNow rid a = [] := by
+  simp [serverNow, hh]
+
+theorem serverNow_some {rid : Nat} {a : Attempt} {h : Head} (hh : a.head = some h) :
+    serverNow rid a = headCells rid a.headLen h ++ (postCells rid a h).take ((postCells rid a h).length - a.hold) := by
+  simp [serverNow, hh]
 
 /-- `HEAD`, 1xx, 204, 304: no body whatever the headers say -/
 def noBody (status : Nat) (isHead : Bool) : Bool :=
   status == 204 || status == 304 || (100 ≤ status && status < 200) || isHead
 
 /-- `http.client`'s `length` right after `begin()` -/
-def initLength (h : Head) (isHead : Bool) : Option Nat := if noBody h.status isHead then some 0 else h.cl
+def initLength (h : Head) (isHead : Bool) : Option Nat :=
+  if noBody h.status isHead then some 0 else if h.chunked then none else h.cl
+
+/-- the bound `length` puts on what is delivered: none for a chunked reply (`http.client` looks at
+`chunked` before it looks at `length`), except that a reply to `HEAD` is never read at all -/
+def lenBound (h : Head) (isHead : Bool) : Option Nat :=
+  if h.chunked && !isHead then none else initLength h isHead
+
+/-- what a reader of the reply may hand to the caller: the payload of a chunked reply; for a reply
+that is not chunked whatever follows the head -/
+def deliverable (rid : Nat) (a : Attempt) (h : Head) : List Cell :=
+  if h.chunked then payloadCells rid a else bodyCells rid a
+
+/-! ### where a chunk parser stands in the chunked coding -/
+
+inductive Pos | size | data (n : Nat) | crlf | tail | bad
+deriving DecidableEq
+
+/-- the position encoded in the two `chunk_left` counters (`bad`: both parsers have been at work) -/
+def respPos (rs : Resp) : Pos :=
+  match rs.chunkLeft, rs.hcLeft with
+  | some 0, none => .tail
+  | some (n + 1), none => .data (n + 1)
+  | some _, some _ => .bad
+  | none, some 0 => .crlf
+  | none, some (n + 1) => .data (n + 1)
+  | none, none => .size
+
+/-- `E` is a sequence of chunks with payload `B` -/
+inductive Enc (t : Tag) : List Nat → List Cell → Prop
+  | nil : Enc t [] []
+  | cons (n : Nat) (B : List Nat) (E : List Cell) : 0 < n → n ≤ B.length → Enc t (B.drop n) E →
+      Enc t B (oneChunk t (B.take n) ++ E)
+
+def crlfCells (t : Tag) : List Cell := [Cell.fr t .cr, Cell.fr t .lf]
+
+/-- what follows the chunks: last-chunk, trailer section, unsolicited bytes -/
+def endCells (rid : Nat) (a : Attempt) : List Cell :=
+  lastChunk (.req rid) ++ (trailerCells (.req rid) a.trailers ++ strayCells a)
+
+/-- reader state `(pos, X)` — `X` handed (or about to be handed) to the caller — and the rest `Rem`
+of the byte stream of the reply fit together -/
+def Expect (rid : Nat) (a : Attempt) (h : Head) (pos : Pos) (X Rem : List Cell) : Prop :=
+  if h.chunked then
+    ∃ Brem : List Nat, X ++ Brem.map (Cell.body (.req rid)) = payloadCells rid a ∧
+      match pos with
+      | .size => ∃ E, Enc (.req rid) Brem E ∧ Rem = E ++ endCells rid a
+      | .data n => 0 < n ∧ n ≤ Brem.length ∧ ∃ E, Enc (.req rid) (Brem.drop n) E ∧
+          Rem = (Brem.take n).map (Cell.body (.req rid)) ++ (crlfCells (.req rid) ++ (E ++ endCells rid a))
+      | .crlf => ∃ E, Enc (.req rid) Brem E ∧ Rem = crlfCells (.req rid) ++ (E ++ endCells rid a)
+      | .tail => Brem = [] ∧ ∃ pre, pre ++ Rem = trailerCells (.req rid) a.trailers ++ strayCells a
+      | .bad => False
+  else X ++ Rem = bodyCells rid a
 
 /-- response `rs` (in state `s`) is an honest reader of the reply to attempt `a` (head `h`) of its
-own request: `X` = consumed so far -/
+own request: `X` = handed to the caller so far -/
 structure Framed (A : Nat → Attempt → Prop) (s : State) (rs : Resp) (X Z : List Cell) (a : Attempt) (h : Head) : Prop where
   att : A rs.rid a
   head : a.head = some h
   st : rs.status = h.status
-  dpre : rs.delivered <+: bodyCells rs.rid a
-  dlen : ∀ n, initLength h rs.isHead = some n → rs.delivered.length ≤ n
-  xpre : X <+: bodyCells rs.rid a
-  xlen : ∀ n, initLength h rs.isHead = some n → X.length ≤ n
-  opn : ∀ k, rs.fp = some k → ∃ sk, s.socks[k]? = some sk ∧ X ++ rs.buf ++ sk.inbound = bodyCells rs.rid a ∧
-          (∀ n, initLength h rs.isHead = some n → ∃ l, rs.length = some l ∧ Z.length + l ≤ n)
+  ch : rs.chunked = h.chunked
+  dpre : rs.delivered <+: deliverable rs.rid a h
+  dlen : ∀ n, lenBound h rs.isHead = some n → rs.delivered.length ≤ n
+  xpre : X <+: deliverable rs.rid a h
+  xlen : ∀ n, lenBound h rs.isHead = some n → X.length ≤ n
+  opn : ∀ k, rs.fp = some k → ∃ (sk : Sock) (Rem : List Cell), s.socks[k]? = some sk ∧
+          Expect rs.rid a h (respPos rs) X Rem ∧ rs.buf ++ sk.inbound <+: Rem ∧
+          (∀ n, lenBound h rs.isHead = some n → ∃ l, rs.length = some l ∧ Z.length + l ≤ n)
 
 def RespOk (A : Nat → Attempt → Prop) (s : State) (rs : Resp) (X Z : List Cell) : Prop :=
   (rs.fp = none ∧ rs.delivered = [] ∧ X = []) ∨ ∃ a h, Framed A s rs X Z a h
+
+/-- no byte of a response head -/
+def NoHd (l : List Cell) : Prop := ∀ c ∈ l, ∀ t fin, c ≠ Cell.hd t fin
 
 abbrev Focus := Option (Nat × List Cell × List Cell)
 
@@ -87,6 +153,7 @@ structure ProvF (A : Nat → Attempt → Prop) (s : State) (f : Focus) : Prop wh
   fpInj : ∀ (i j : Nat) (rs rs' : Resp) (k : Nat), s.resps[i]? = some rs → s.resps[j]? = some rs' → rs.fp = some k → rs'.fp = some k → i = j
   resp : ∀ (i : Nat) (rs : Resp), s.resps[i]? = some rs → RespOk A s rs (f.x i rs) (f.z i rs)
   foc : ∀ r X Z, f = some (r, X, Z) → s.resps[r]? = none → X = []
+  heldB : ∀ (k : Nat) (sk : Sock), s.socks[k]? = some sk → NoHd sk.held
 
 abbrev Prov (A : Nat → Attempt → Prop) (s : State) : Prop := ProvF A s none
 
@@ -99,14 +166,14 @@ structure Safe (s s' : State) : Prop where
   slen : s.socks.length ≤ s'.socks.length
   rlen : s.resps.length ≤ s'.resps.length
   st : ∀ (i : Nat) (rs rs' : Resp), s.resps[i]? = some rs → s'.resps[i]? = some rs' →
-    rs'.status = rs.status ∧ rs'.length = rs.length
+    rs'.status = rs.status ∧ rs'.length = rs.length ∧ rs'.chunked = rs.chunked
   /-- a socket somebody reads from in `s'` has the kernel buffer it had in `s` -/
   sk : ∀ (i : Nat) (rs' : Resp) (k : Nat) (sk : Sock), s'.resps[i]? = some rs' → rs'.fp = some k → s.socks[k]? = some sk →
     ∃ sk', s'.socks[k]? = some sk' ∧ sk'.inbound = sk.inbound
   /-- responses: the old ones may have been closed, new ones are closed and empty -/
   rs : ∀ (i : Nat) (rs' : Resp), s'.resps[i]? = some rs' →
     (∃ rs : Resp, s.resps[i]? = some rs ∧ rs'.rid = rs.rid ∧ rs'.delivered = rs.delivered ∧ rs'.isHead = rs.isHead ∧
-      (rs'.fp = none ∨ (rs'.fp = rs.fp ∧ rs'.buf = rs.buf ∧ rs'.length = rs.length))) ∨
+      (rs'.fp = none ∨ (rs'.fp = rs.fp ∧ rs'.buf = rs.buf ∧ rs'.length = rs.length ∧ respPos rs' = respPos rs))) ∨
     (s.resps[i]? = none ∧ rs'.fp = none ∧ rs'.delivered = [])
   /-- connections: a live socket of `s'` was the same connection's socket in `s` (`__response` kept,
   or nobody reads from that socket), or it is a brand-new socket -/
@@ -114,28 +181,36 @@ structure Safe (s s' : State) : Prop where
     (∃ cn : Conn, s.conns[c]? = some cn ∧ cn.sock = some k ∧ (cn'.pending = cn.pending ∨ NoReader s' k)) ∨
     (s.socks.length ≤ k ∧ k < s'.socks.length ∧ NoReader s' k ∧
       ∀ (c2 : Nat) (cn2 : Conn), s'.conns[c2]? = some cn2 → cn2.sock = some k → c2 = c)
+  /-- what a peer holds back is what it held back in `s`, or free of head bytes -/
+  hd : ∀ (k : Nat) (sk' : Sock), s'.socks[k]? = some sk' →
+    (∃ sk : Sock, s.socks[k]? = some sk ∧ sk'.held = sk.held) ∨ NoHd sk'.held
 
 theorem st_of_eq {s s' : State} (h : s'.resps = s.resps) :
     ∀ (i : Nat) (rs rs' : Resp), s.resps[i]? = some rs → s'.resps[i]? = some rs' →
-      rs'.status = rs.status ∧ rs'.length = rs.length := by
+      rs'.status = rs.status ∧ rs'.length = rs.length ∧ rs'.chunked = rs.chunked := by
   intro i rs rs' h1 h2
-  rw [h, h1] at h2; cases h2; exact ⟨rfl, rfl⟩
+  rw [h, h1] at h2; cases h2; exact ⟨rfl, rfl, rfl⟩
+
+theorem hd_of_eq {s s' : State} (h : s'.socks = s.socks) :
+    ∀ (k : Nat) (sk' : Sock), s'.socks[k]? = some sk' →
+      (∃ sk : Sock, s.socks[k]? = some sk ∧ sk'.held = sk.held) ∨ NoHd sk'.held := by
+  intro k sk' h1; rw [h] at h1; exact Or.inl ⟨sk', h1, rfl⟩
 
 theorem Safe.refl (s : State) : Safe s s := by
-  refine ⟨Nat.le_refl _, Nat.le_refl _, st_of_eq rfl, ?_, ?_, ?_⟩
+  refine ⟨Nat.le_refl _, Nat.le_refl _, st_of_eq rfl, ?_, ?_, ?_, hd_of_eq rfl⟩
   · intro i rs' k sk h1 h2 h3; exact ⟨sk, h3, rfl⟩
-  · intro i rs' h; exact Or.inl ⟨rs', h, rfl, rfl, rfl, Or.inr ⟨rfl, rfl, rfl⟩⟩
+  · intro i rs' h; exact Or.inl ⟨rs', h, rfl, rfl, rfl, Or.inr ⟨rfl, rfl, rfl, rfl⟩⟩
   · intro c cn' k h1 h2; exact Or.inl ⟨cn', h1, h2, Or.inl rfl⟩
 
 /-- an open reader of `s'` was the same open reader in `s` -/
 theorem Safe.open_old {s s' : State} (h : Safe s s') {i : Nat} {rs' : Resp} {k : Nat}
     (h1 : s'.resps[i]? = some rs') (h2 : rs'.fp = some k) :
     ∃ rs, s.resps[i]? = some rs ∧ rs.fp = some k ∧ rs'.rid = rs.rid ∧ rs'.delivered = rs.delivered ∧
-      rs'.isHead = rs.isHead ∧ rs'.buf = rs.buf ∧ rs'.length = rs.length := by
+      rs'.isHead = rs.isHead ∧ rs'.buf = rs.buf ∧ rs'.length = rs.length ∧ respPos rs' = respPos rs := by
   rcases h.rs i rs' h1 with ⟨rs, a, b, c, d, e⟩ | ⟨_, b, _⟩
-  · rcases e with e | ⟨e1, e2, e3⟩
+  · rcases e with e | ⟨e1, e2, e3, e4⟩
     · rw [e] at h2; cases h2
-    · exact ⟨rs, a, by rw [← e1]; exact h2, b, c, d, e2, e3⟩
+    · exact ⟨rs, a, by rw [← e1]; exact h2, b, c, d, e2, e3, e4⟩
   · rw [b] at h2; cases h2
 
 theorem Safe.noReader {s s' : State} (h : Safe s s') {k : Nat} (n : NoReader s k) : NoReader s' k := by
@@ -144,14 +219,23 @@ theorem Safe.noReader {s s' : State} (h : Safe s s') {k : Nat} (n : NoReader s k
   exact n i rs a b
 
 theorem Safe.trans {s t u : State} (a : Safe s t) (b : Safe t u) : Safe s u := by
-  refine ⟨Nat.le_trans a.slen b.slen, Nat.le_trans a.rlen b.rlen, ?_, ?_, ?_, ?_⟩
+  refine ⟨Nat.le_trans a.slen b.slen, Nat.le_trans a.rlen b.rlen, ?_, ?_, ?_, ?_, ?_⟩
+  rotate_right
+  · intro k sk' h1
+    rcases b.hd k sk' h1 with ⟨sk1, g1, g2⟩ | g
+    · rcases a.hd k sk1 g1 with ⟨sk0, g3, g4⟩ | g
+      · exact Or.inl ⟨sk0, g3, by rw [g2, g4]⟩
+      · exact Or.inr (by rw [g2]; exact g)
+    · exact Or.inr g
   · intro i rs rs' h1 h2
     have hi : i < t.resps.length := by
       rcases Nat.lt_or_ge i s.resps.length with h' | h'
       · exact Nat.lt_of_lt_of_le h' a.rlen
       · rw [List.getElem?_eq_none h'] at h1; cases h1
     have ht : t.resps[i]? = some t.resps[i] := List.getElem?_eq_getElem hi
-    rw [(b.st i _ rs' ht h2).1, (a.st i rs _ h1 ht).1, (b.st i _ rs' ht h2).2, (a.st i rs _ h1 ht).2]; exact ⟨rfl, rfl⟩
+    obtain ⟨b1, b2, b3⟩ := b.st i _ rs' ht h2
+    obtain ⟨a1, a2, a3⟩ := a.st i rs _ h1 ht
+    exact ⟨by rw [b1, a1], by rw [b2, a2], by rw [b3, a3]⟩
   · intro i rs' k sk h1 h2 h3
     obtain ⟨rt, ht, hfp, _⟩ := b.open_old h1 h2
     obtain ⟨sk1, hs1, e1⟩ := a.sk i rt k sk ht hfp h3
@@ -161,11 +245,11 @@ theorem Safe.trans {s t u : State} (a : Safe s t) (b : Safe t u) : Safe s u := b
     rcases b.rs i rs' h with ⟨rt, ht, b1, b2, b3, b4⟩ | ⟨ht, b1, b2⟩
     · rcases a.rs i rt ht with ⟨r0, h0, a1, a2, a3, a4⟩ | ⟨h0, a1, a2⟩
       · refine Or.inl ⟨r0, h0, by rw [b1, a1], by rw [b2, a2], by rw [b3, a3], ?_⟩
-        rcases b4 with b4 | ⟨b4, b5, b6⟩
+        rcases b4 with b4 | ⟨b4, b5, b6, b7⟩
         · exact Or.inl b4
-        · rcases a4 with a4 | ⟨a4, a5, a6⟩
+        · rcases a4 with a4 | ⟨a4, a5, a6, a7⟩
           · exact Or.inl (by rw [b4, a4])
-          · exact Or.inr ⟨by rw [b4, a4], by rw [b5, a5], by rw [b6, a6]⟩
+          · exact Or.inr ⟨by rw [b4, a4], by rw [b5, a5], by rw [b6, a6], by rw [b7, a7]⟩
       · refine Or.inr ⟨h0, ?_, by rw [b2, a2]⟩
         rcases b4 with b4 | ⟨b4, _, _⟩
         · exact b4
@@ -200,7 +284,12 @@ theorem Focus.z_congr (f : Focus) (i : Nat) {rs rs' : Resp} (h : rs'.delivered =
 
 /-- the transfer lemma -/
 theorem Safe.prov {A : Nat → Attempt → Prop} {s s' : State} {f : Focus} (h : Safe s s') (p : ProvF A s f) : ProvF A s' f := by
-  refine ⟨?_, ?_, ?_, ?_, ?_, ?_, ?_⟩
+  refine ⟨?_, ?_, ?_, ?_, ?_, ?_, ?_, ?_⟩
+  rotate_right
+  · intro k sk' h1
+    rcases h.hd k sk' h1 with ⟨sk, g1, g2⟩ | g
+    · rw [g2]; exact p.heldB k sk g1
+    · exact g
   · intro c cn' k h1 h2
     rcases h.cn c cn' k h1 h2 with ⟨cn, hs, hk, _⟩ | ⟨_, g2, _, _⟩
     · exact Nat.lt_of_lt_of_le (p.sockB c cn k hs hk) h.slen
@@ -235,15 +324,16 @@ theorem Safe.prov {A : Nat → Attempt → Prop} {s s' : State} {f : Focus} (h :
         · exact e4
         · rw [e4, q1]
       · right
-        refine ⟨a, hd, ⟨by rw [e1]; exact fr.att, fr.head, (by rw [(h.st i rs rs' h0 h1).1]; exact fr.st), by rw [e1, e2]; exact fr.dpre, by rw [e2, e3]; exact fr.dlen,
+        refine ⟨a, hd, ⟨by rw [e1]; exact fr.att, fr.head, (by rw [(h.st i rs rs' h0 h1).1]; exact fr.st),
+          (by rw [(h.st i rs rs' h0 h1).2.2]; exact fr.ch), by rw [e1, e2]; exact fr.dpre, by rw [e2, e3]; exact fr.dlen,
           by rw [e1]; exact fr.xpre, by rw [e3]; exact fr.xlen, ?_⟩⟩
         intro k hk
-        rcases e4 with e4 | ⟨e4, e5, e6⟩
+        rcases e4 with e4 | ⟨e4, e5, e6, e7⟩
         · rw [e4] at hk; cases hk
         · rw [e4] at hk
-          obtain ⟨sk, hsk, q1, q2⟩ := fr.opn k hk
+          obtain ⟨sk, Rem, hsk, q0, q1, q2⟩ := fr.opn k hk
           obtain ⟨sk', hsk', q3⟩ := h.sk i rs' k sk h1 (by rw [e4]; exact hk) hsk
-          exact ⟨sk', hsk', by rw [e1, e5, q3]; exact q1, by rw [e3, e6]; exact q2⟩
+          exact ⟨sk', Rem, hsk', by rw [e1, e7]; exact q0, by rw [e5, q3]; exact q1, by rw [e3, e6]; exact q2⟩
     · refine Or.inl ⟨e1, e2, ?_⟩
       cases f with
       | none => exact e2
@@ -263,9 +353,9 @@ theorem Safe.prov {A : Nat → Attempt → Prop} {s s' : State} {f : Focus} (h :
 
 theorem safe_core {s s' : State} (h1 : s'.conns = s.conns) (h2 : s'.resps = s.resps) (h3 : s'.socks = s.socks) :
     Safe s s' := by
-  refine ⟨by rw [h3]; exact Nat.le_refl _, by rw [h2]; exact Nat.le_refl _, st_of_eq h2, ?_, ?_, ?_⟩
+  refine ⟨by rw [h3]; exact Nat.le_refl _, by rw [h2]; exact Nat.le_refl _, st_of_eq h2, ?_, ?_, ?_, hd_of_eq h3⟩
   · intro i rs' k sk _ _ h; exact ⟨sk, by rw [h3]; exact h, rfl⟩
-  · intro i rs' h; rw [h2] at h; exact Or.inl ⟨rs', h, rfl, rfl, rfl, Or.inr ⟨rfl, rfl, rfl⟩⟩
+  · intro i rs' h; rw [h2] at h; exact Or.inl ⟨rs', h, rfl, rfl, rfl, Or.inr ⟨rfl, rfl, rfl, rfl⟩⟩
   · intro c cn' k h1' h2'; rw [h1] at h1'; exact Or.inl ⟨cn', h1', h2', Or.inl rfl⟩
 
 theorem logEv_safe (s : State) (e : Ev) : Safe s (logEv s e) := safe_core rfl rfl rfl
@@ -277,15 +367,15 @@ theorem noteClose_safe (s : State) (k : Nat) : Safe s (noteClose s k) := by
 
 theorem setResp_safe (s : State) (r : Nat) (g : Resp → Resp)
     (hg : ∀ x, (g x).rid = x.rid ∧ (g x).delivered = x.delivered ∧ (g x).isHead = x.isHead ∧
-      ((g x).fp = none ∨ ((g x).fp = x.fp ∧ (g x).buf = x.buf ∧ (g x).length = x.length)))
-    (hst : ∀ x, (g x).status = x.status ∧ (g x).length = x.length := by intro x; exact ⟨rfl, rfl⟩) :
+      ((g x).fp = none ∨ ((g x).fp = x.fp ∧ (g x).buf = x.buf ∧ (g x).length = x.length ∧ respPos (g x) = respPos x)))
+    (hst : ∀ x, (g x).status = x.status ∧ (g x).length = x.length ∧ (g x).chunked = x.chunked := by intro x; exact ⟨rfl, rfl, rfl⟩) :
     Safe s (setResp s r g) := by
-  refine ⟨Nat.le_refl _, by simp [setResp], ?_, ?_, ?_, ?_⟩
+  refine ⟨Nat.le_refl _, by simp [setResp], ?_, ?_, ?_, ?_, hd_of_eq rfl⟩
   · intro i rs rs' h1 h2
     simp only [setResp, List.getElem?_modify, h1] at h2
     by_cases hri : r = i
     · simp [hri] at h2; subst h2; exact hst rs
-    · simp [hri] at h2; subst h2; exact ⟨rfl, rfl⟩
+    · simp [hri] at h2; subst h2; exact ⟨rfl, rfl, rfl⟩
   · intro i rs' k sk _ _ h; exact ⟨sk, h, rfl⟩
   · intro i rs' h
     simp only [setResp, List.getElem?_modify] at h
@@ -297,15 +387,15 @@ theorem setResp_safe (s : State) (r : Nat) (g : Resp → Resp)
       refine ⟨x, rfl, ?_⟩
       by_cases hri : r = i
       · simp [hri] at h; subst h; exact hg x
-      · simp [hri] at h; subst h; exact ⟨rfl, rfl, rfl, Or.inr ⟨rfl, rfl, rfl⟩⟩
+      · simp [hri] at h; subst h; exact ⟨rfl, rfl, rfl, Or.inr ⟨rfl, rfl, rfl, rfl⟩⟩
   · intro c cn' k h1 h2; exact Or.inl ⟨cn', h1, h2, Or.inl rfl⟩
 
 theorem setConn_safe (s : State) (c : Nat) (g : Conn → Conn)
     (hg : ∀ x, (g x).sock = none ∨ ((g x).sock = x.sock ∧ (g x).pending = x.pending)) :
     Safe s (setConn s c g) := by
-  refine ⟨Nat.le_refl _, Nat.le_refl _, st_of_eq rfl, ?_, ?_, ?_⟩
+  refine ⟨Nat.le_refl _, Nat.le_refl _, st_of_eq rfl, ?_, ?_, ?_, hd_of_eq rfl⟩
   · intro i rs' k sk _ _ h; exact ⟨sk, h, rfl⟩
-  · intro i rs' h; exact Or.inl ⟨rs', h, rfl, rfl, rfl, Or.inr ⟨rfl, rfl, rfl⟩⟩
+  · intro i rs' h; exact Or.inl ⟨rs', h, rfl, rfl, rfl, Or.inr ⟨rfl, rfl, rfl, rfl⟩⟩
   · intro c' cn' k h1 h2
     simp only [setConn, List.getElem?_modify] at h1
     cases hx : s.conns[c']? with
@@ -335,9 +425,9 @@ theorem forget_safe {A : Nat → Attempt → Prop} {f : Focus} {s : State} (p : 
       · rename_i rs hrs
         split
         · rename_i hfp
-          refine ⟨Nat.le_refl _, Nat.le_refl _, st_of_eq rfl, ?_, ?_, ?_⟩
+          refine ⟨Nat.le_refl _, Nat.le_refl _, st_of_eq rfl, ?_, ?_, ?_, hd_of_eq rfl⟩
           · intro i rs' k sk _ _ h; exact ⟨sk, h, rfl⟩
-          · intro i rs' h; exact Or.inl ⟨rs', h, rfl, rfl, rfl, Or.inr ⟨rfl, rfl, rfl⟩⟩
+          · intro i rs' h; exact Or.inl ⟨rs', h, rfl, rfl, rfl, Or.inr ⟨rfl, rfl, rfl, rfl⟩⟩
           · intro c' cn' k h1 h2
             simp only [setConn, List.getElem?_modify] at h1
             cases hx : s.conns[c']? with
@@ -414,7 +504,7 @@ theorem releaseConn_safe (s : State) (r : Nat) : Safe s (releaseConn s r).1 := b
         split
         · rename_i h; rw [h] at this; exact this
         · rename_i h; rw [h] at this
-          exact this.trans (setResp_safe _ r _ (fun x => ⟨rfl, rfl, rfl, Or.inr ⟨rfl, rfl, rfl⟩⟩))
+          exact this.trans (setResp_safe _ r _ (fun x => ⟨rfl, rfl, rfl, Or.inr ⟨rfl, rfl, rfl, rfl⟩⟩))
 
 theorem respClose_safe (s : State) (r : Nat) : Safe s (respClose s r) := by
   unfold respClose
@@ -444,12 +534,12 @@ theorem discard_safe (s : State) (c : Option Nat) : Safe s (discard s c).1 := by
   | some i => exact (connClose_safe s i).trans (putConn_safe _ _)
 
 theorem markReturned_safe (s : State) (r : Nat) : Safe s (markReturned s r) :=
-  setResp_safe s r _ (fun x => ⟨rfl, rfl, rfl, Or.inr ⟨rfl, rfl, rfl⟩⟩)
+  setResp_safe s r _ (fun x => ⟨rfl, rfl, rfl, Or.inr ⟨rfl, rfl, rfl, rfl⟩⟩)
 
 theorem appendConn_safe (s : State) (x : Conn) (hx : x.sock = none) : Safe s { s with conns := s.conns ++ [x] } := by
-  refine ⟨Nat.le_refl _, Nat.le_refl _, st_of_eq rfl, ?_, ?_, ?_⟩
+  refine ⟨Nat.le_refl _, Nat.le_refl _, st_of_eq rfl, ?_, ?_, ?_, hd_of_eq rfl⟩
   · intro i rs' k sk _ _ h; exact ⟨sk, h, rfl⟩
-  · intro i rs' h; exact Or.inl ⟨rs', h, rfl, rfl, rfl, Or.inr ⟨rfl, rfl, rfl⟩⟩
+  · intro i rs' h; exact Or.inl ⟨rs', h, rfl, rfl, rfl, Or.inr ⟨rfl, rfl, rfl, rfl⟩⟩
   · intro c cn' k h1 h2
     simp only [List.getElem?_append] at h1
     split at h1
@@ -465,8 +555,23 @@ theorem appendConn_safe (s : State) (x : Conn) (hx : x.sock = none) : Safe s { s
 
 theorem newConn_safe (s : State) : Safe s (newConn s).1 := appendConn_safe s {} rfl
 
-theorem appendSock_safe (s : State) (x : Sock) : Safe s { s with socks := s.socks ++ [x] } := by
-  refine ⟨by simp, Nat.le_refl _, st_of_eq rfl, ?_, ?_, ?_⟩
+theorem appendSock_safe (s : State) (x : Sock) (hx : x.held = []) : Safe s { s with socks := s.socks ++ [x] } := by
+  refine ⟨by simp, Nat.le_refl _, st_of_eq rfl, ?_, ?_, ?_, ?_⟩
+  rotate_right
+  · intro k sk' h1
+    have h1' : (s.socks ++ [x])[k]? = some sk' := h1
+    rw [List.getElem?_append] at h1'
+    split at h1'
+    · exact Or.inl ⟨sk', h1', rfl⟩
+    · right
+      have : sk' = x := by
+        cases hh : [x][k - s.socks.length]? with
+        | none => rw [hh] at h1'; cases h1'
+        | some y =>
+          rw [hh] at h1'; cases h1'
+          have := List.mem_of_getElem? hh
+          simpa using this
+      subst this; rw [hx]; intro c hc; cases hc
   · intro i rs' k sk _ _ h
     refine ⟨sk, ?_, rfl⟩
     have hk : k < s.socks.length := by
@@ -475,13 +580,27 @@ theorem appendSock_safe (s : State) (x : Sock) : Safe s { s with socks := s.sock
       · rw [List.getElem?_eq_none h'] at h; cases h
     show (s.socks ++ [x])[k]? = some sk
     rw [List.getElem?_append_left hk]; exact h
-  · intro i rs' h; exact Or.inl ⟨rs', h, rfl, rfl, rfl, Or.inr ⟨rfl, rfl, rfl⟩⟩
+  · intro i rs' h; exact Or.inl ⟨rs', h, rfl, rfl, rfl, Or.inr ⟨rfl, rfl, rfl, rfl⟩⟩
   · intro c cn' k h1 h2; exact Or.inl ⟨cn', h1, h2, Or.inl rfl⟩
 
 /-- touching a socket without changing its kernel buffer, or a socket nobody reads from -/
-theorem setSock_safe (s : State) (k : Nat) (g : Sock → Sock) (hg : (∀ x, (g x).inbound = x.inbound) ∨ NoReader s k) :
+theorem setSock_safe (s : State) (k : Nat) (g : Sock → Sock) (hg : (∀ x, (g x).inbound = x.inbound) ∨ NoReader s k)
+    (hh : ∀ x, (g x).held = x.held ∨ NoHd (g x).held := by intro x; exact Or.inl rfl) :
     Safe s (setSock s k g) := by
-  refine ⟨by simp [setSock], Nat.le_refl _, st_of_eq rfl, ?_, ?_, ?_⟩
+  refine ⟨by simp [setSock], Nat.le_refl _, st_of_eq rfl, ?_, ?_, ?_, ?_⟩
+  rotate_right
+  · intro k' sk' h1
+    simp only [setSock, List.getElem?_modify] at h1
+    cases hx : s.socks[k']? with
+    | none => simp [hx] at h1
+    | some x =>
+      simp [hx] at h1
+      by_cases hkk : k = k'
+      · simp [hkk] at h1; subst h1
+        rcases hh x with e | e
+        · exact Or.inl ⟨x, rfl, e⟩
+        · exact Or.inr e
+      · simp [hkk] at h1; subst h1; exact Or.inl ⟨x, rfl, rfl⟩
   · intro i rs' k' sk h1 h2 h
     simp only [setSock, List.getElem?_modify, h]
     by_cases hkk : k = k'
@@ -490,7 +609,7 @@ theorem setSock_safe (s : State) (k : Nat) (g : Sock → Sock) (hg : (∀ x, (g 
       · exact ⟨g sk, by simp, hg sk⟩
       · exact absurd h2 (hg i rs' h1)
     · exact ⟨sk, by simp [hkk], rfl⟩
-  · intro i rs' h; exact Or.inl ⟨rs', h, rfl, rfl, rfl, Or.inr ⟨rfl, rfl, rfl⟩⟩
+  · intro i rs' h; exact Or.inl ⟨rs', h, rfl, rfl, rfl, Or.inr ⟨rfl, rfl, rfl, rfl⟩⟩
   · intro c cn' k h1 h2; exact Or.inl ⟨cn', h1, h2, Or.inl rfl⟩
 
 theorem getConn_safe (s : State) : Safe s (getConn s).1 := by
@@ -572,15 +691,21 @@ structure ReadRel (r k : Nat) (s s' : State) (m : List Cell) : Prop where
   stream : ∀ (rs : Resp) (sk : Sock), s.resps[r]? = some rs → s.socks[k]? = some sk →
     ∃ (rs' : Resp) (sk' : Sock), s'.resps[r]? = some rs' ∧ s'.socks[k]? = some sk' ∧
       m ++ rs'.buf ++ sk'.inbound = rs.buf ++ sk.inbound
+  hsame : ∀ sk : Sock, s.socks[k]? = some sk → ∃ sk' : Sock, s'.socks[k]? = some sk' ∧ sk'.held = sk.held
 
 theorem ReadRel.refl (r k : Nat) (s : State) : ReadRel r k s s [] := by
-  refine ⟨rfl, rfl, rfl, fun _ _ => rfl, fun _ _ => rfl, fun rs h => ⟨rs.buf, h⟩, ?_⟩
+  refine ⟨rfl, rfl, rfl, fun _ _ => rfl, fun _ _ => rfl, fun rs h => ⟨rs.buf, h⟩, ?_, fun sk h => ⟨sk, h, rfl⟩⟩
   intro rs sk h1 h2; exact ⟨rs, sk, h1, h2, rfl⟩
 
 theorem ReadRel.trans {r k : Nat} {s t u : State} {m1 m2 : List Cell} (a : ReadRel r k s t m1) (b : ReadRel r k t u m2) :
     ReadRel r k s u (m1 ++ m2) := by
   refine ⟨by rw [b.conns, a.conns], by rw [b.rlen, a.rlen], by rw [b.slen, a.slen],
-    fun i hi => by rw [b.rother i hi, a.rother i hi], fun j hj => by rw [b.sother j hj, a.sother j hj], ?_, ?_⟩
+    fun i hi => by rw [b.rother i hi, a.rother i hi], fun j hj => by rw [b.sother j hj, a.sother j hj], ?_, ?_, ?_⟩
+  rotate_right
+  · intro sk h
+    obtain ⟨sk1, g1, g2⟩ := a.hsame sk h
+    obtain ⟨sk2, g3, g4⟩ := b.hsame sk1 g1
+    exact ⟨sk2, g3, by rw [g4, g2]⟩
   · intro rs h
     obtain ⟨b1, h1⟩ := a.rsame rs h
     obtain ⟨b2, h2⟩ := b.rsame _ h1
@@ -592,7 +717,7 @@ theorem ReadRel.trans {r k : Nat} {s t u : State} {m1 m2 : List Cell} (a : ReadR
     rw [← e3]; simp only [List.append_assoc] at f3 ⊢; rw [f3]
 
 theorem logEv_readRel (r k : Nat) (s : State) (e : Ev) : ReadRel r k s (logEv s e) [] := by
-  refine ⟨rfl, rfl, rfl, fun _ _ => rfl, fun _ _ => rfl, fun rs h => ⟨rs.buf, h⟩, ?_⟩
+  refine ⟨rfl, rfl, rfl, fun _ _ => rfl, fun _ _ => rfl, fun rs h => ⟨rs.buf, h⟩, ?_, fun sk h => ⟨sk, h, rfl⟩⟩
   intro rs sk h1 h2; exact ⟨rs, sk, h1, h2, rfl⟩
 
 /-- a `recv`: bytes move from the kernel buffer to the private buffer -/
@@ -609,7 +734,9 @@ theorem recvInto_rel (s : State) (r k room : Nat) : ReadRel r k s (recvInto s r 
   · rename_i sk hsk
     have hafter : ∀ a : After, ReadRel r k t (setSock t k fun x => { x with after := a }) [] := by
       intro a
-      refine ⟨rfl, rfl, by simp [setSock], fun _ _ => rfl, ?_, fun rs h => ⟨rs.buf, h⟩, ?_⟩
+      refine ⟨rfl, rfl, by simp [setSock], fun _ _ => rfl, ?_, fun rs h => ⟨rs.buf, h⟩, ?_, ?_⟩
+      rotate_right
+      · intro sk' h; exact ⟨{ sk' with after := a }, by simp [setSock, List.getElem?_modify, h], rfl⟩
       · intro j hj; simp [setSock, List.getElem?_modify, Ne.symm hj]
       · intro rs sk' h1 h2
         refine ⟨rs, { sk' with after := a }, h1, ?_, rfl⟩
@@ -623,7 +750,10 @@ theorem recvInto_rel (s : State) (r k room : Nat) : ReadRel r k s (recvInto s r 
     · rename_i c cs hin
       simp only
       generalize (if sk.seg = 0 then room else min sk.seg room) = n
-      refine ⟨rfl, by simp [setResp, setSock], by simp [setResp, setSock], ?_, ?_, ?_, ?_⟩
+      refine ⟨rfl, by simp [setResp, setSock], by simp [setResp, setSock], ?_, ?_, ?_, ?_, ?_⟩
+      rotate_right
+      · intro sk' h; rw [hsk] at h; cases h
+        exact ⟨{ sk with inbound := sk.inbound.drop n }, by simp [setResp, setSock, List.getElem?_modify, hsk], rfl⟩
       · intro i hi; simp [setResp, setSock, List.getElem?_modify, Ne.symm hi]
       · intro j hj; simp [setResp, setSock, List.getElem?_modify, Ne.symm hj]
       · intro rs h; exact ⟨rs.buf ++ sk.inbound.take n, by simp [setResp, setSock, List.getElem?_modify, h]⟩
@@ -638,7 +768,7 @@ theorem recvInto_rel (s : State) (r k room : Nat) : ReadRel r k s (recvInto s r 
 theorem setBuf_rel (r k : Nat) (s : State) (rs : Resp) (m : List Cell) (g : Resp → List Cell)
     (h : s.resps[r]? = some rs) (hb : rs.buf = m ++ g rs) :
     ReadRel r k s (setResp s r fun x => { x with buf := g x }) m := by
-  refine ⟨rfl, by simp [setResp], rfl, ?_, fun _ _ => rfl, ?_, ?_⟩
+  refine ⟨rfl, by simp [setResp], rfl, ?_, fun _ _ => rfl, ?_, ?_, fun sk h => ⟨sk, h, rfl⟩⟩
   · intro i hi; simp [setResp, List.getElem?_modify, Ne.symm hi]
   · intro rs' h'; rw [h] at h'; cases h'
     exact ⟨g rs, by simp [setResp, List.getElem?_modify, h]⟩
@@ -746,7 +876,7 @@ theorem provF_refocus {A : Nat → Attempt → Prop} {s : State} {f g : Focus} (
     (h : ∀ i rs, s.resps[i]? = some rs → RespOk A s rs (f.x i rs) (f.z i rs) → RespOk A s rs (g.x i rs) (g.z i rs))
     (hg : ∀ r X Z, g = some (r, X, Z) → s.resps[r]? = none → X = []) :
     ProvF A s g :=
-  ⟨p.sockB, p.fpB, p.sockInj, p.pend, p.fpInj, fun i rs hi => h i rs hi (p.resp i rs hi), hg⟩
+  ⟨p.sockB, p.fpB, p.sockInj, p.pend, p.fpInj, fun i rs hi => h i rs hi (p.resp i rs hi), hg, p.heldB⟩
 
 theorem respOk_closed {A : Nat → Attempt → Prop} {s : State} {rs : Resp} {X Z : List Cell} (X' Z' : List Cell)
     (h : RespOk A s rs X Z) (hc : rs.fp = none) (hx : X' = X ∨ X' = rs.delivered) : RespOk A s rs X' Z' := by
@@ -756,7 +886,7 @@ theorem respOk_closed {A : Nat → Attempt → Prop} {s : State} {rs : Resp} {X 
     · exact h3
     · exact h2
   · right
-    refine ⟨a, hd, ⟨fr.att, fr.head, fr.st, fr.dpre, fr.dlen, ?_, ?_, ?_⟩⟩
+    refine ⟨a, hd, ⟨fr.att, fr.head, fr.st, fr.ch, fr.dpre, fr.dlen, ?_, ?_, ?_⟩⟩
     · rcases hx with rfl | rfl
       · exact fr.xpre
       · exact fr.dpre
@@ -805,86 +935,188 @@ theorem closed_refocus {A : Nat → Attempt → Prop} {s : State} {r : Nat} {X Z
     exact respOk_closed _ _ h (hc rs hi) (Or.inl rfl)
   · simpa [Focus.x, Focus.z, hir] using h
 
-/-- the focused reader consumed `m` -/
-theorem read_prov {A : Nat → Attempt → Prop} {s s' : State} {r k : Nat} {X m : List Cell} {rs : Resp}
-    (p : ProvF A s (some (r, X, X))) (hr : s.resps[r]? = some rs) (hk : rs.fp = some k) (rel : ReadRel r k s s' m)
-    (hl : ∀ l, rs.length = some l → m.length ≤ l) :
-    ProvF A s' (some (r, X ++ m, X)) := by
-  have hfp : ∀ (i : Nat) (rs' : Resp), s'.resps[i]? = some rs' → ∃ rs0 : Resp, s.resps[i]? = some rs0 ∧ rs'.fp = rs0.fp := by
-    intro i rs' hi
+/-! ### consumption by the focused reader -/
+
+theorem prefix_drop_of_append {m y R : List Cell} (h : m ++ y <+: R) : y <+: R.drop m.length := by
+  obtain ⟨t, ht⟩ := h
+  refine ⟨t, ?_⟩
+  rw [← ht]; simp
+
+theorem prefix_of_append_prefix {m y R : List Cell} (h : m ++ y <+: R) : m <+: R := by
+  obtain ⟨t, ht⟩ := h
+  exact ⟨y ++ t, by rw [← ht]; simp⟩
+
+/-- like `ReadRel`, but the chunk-parser fields of reader `r` may have changed too -/
+structure ReadRelP (r k : Nat) (s s' : State) (m : List Cell) : Prop where
+  conns : s'.conns = s.conns
+  rlen : s'.resps.length = s.resps.length
+  slen : s'.socks.length = s.socks.length
+  rother : ∀ i, i ≠ r → s'.resps[i]? = s.resps[i]?
+  sother : ∀ j, j ≠ k → s'.socks[j]? = s.socks[j]?
+  rsame : ∀ rs : Resp, s.resps[r]? = some rs → ∃ rs' : Resp, s'.resps[r]? = some rs' ∧ rs'.rid = rs.rid ∧
+    rs'.delivered = rs.delivered ∧ rs'.isHead = rs.isHead ∧ rs'.fp = rs.fp ∧ rs'.status = rs.status ∧
+    rs'.chunked = rs.chunked ∧ rs'.length = rs.length ∧ rs'.conn = rs.conn ∧ rs'.hasPool = rs.hasPool
+  stream : ∀ (rs : Resp) (sk : Sock), s.resps[r]? = some rs → s.socks[k]? = some sk →
+    ∃ (rs' : Resp) (sk' : Sock), s'.resps[r]? = some rs' ∧ s'.socks[k]? = some sk' ∧
+      m ++ rs'.buf ++ sk'.inbound = rs.buf ++ sk.inbound
+  hsame : ∀ sk : Sock, s.socks[k]? = some sk → ∃ sk' : Sock, s'.socks[k]? = some sk' ∧ sk'.held = sk.held
+
+theorem ReadRel.toP {r k : Nat} {s s' : State} {m : List Cell} (h : ReadRel r k s s' m) : ReadRelP r k s s' m :=
+  ⟨h.conns, h.rlen, h.slen, h.rother, h.sother,
+    fun rs hr => by obtain ⟨b, hb⟩ := h.rsame rs hr; exact ⟨_, hb, rfl, rfl, rfl, rfl, rfl, rfl, rfl, rfl, rfl⟩,
+    h.stream, h.hsame⟩
+
+theorem ReadRelP.refl (r k : Nat) (s : State) : ReadRelP r k s s [] := (ReadRel.refl r k s).toP
+
+theorem ReadRelP.trans {r k : Nat} {s t u : State} {m1 m2 : List Cell} (a : ReadRelP r k s t m1) (b : ReadRelP r k t u m2) :
+    ReadRelP r k s u (m1 ++ m2) := by
+  refine ⟨by rw [b.conns, a.conns], by rw [b.rlen, a.rlen], by rw [b.slen, a.slen],
+    fun i hi => by rw [b.rother i hi, a.rother i hi], fun j hj => by rw [b.sother j hj, a.sother j hj], ?_, ?_, ?_⟩
+  · intro rs h
+    obtain ⟨r1, h1, a1, a2, a3, a4, a5, a6, a7, a8, a9⟩ := a.rsame rs h
+    obtain ⟨r2, h2, b1, b2, b3, b4, b5, b6, b7, b8, b9⟩ := b.rsame r1 h1
+    exact ⟨r2, h2, by rw [b1, a1], by rw [b2, a2], by rw [b3, a3], by rw [b4, a4], by rw [b5, a5], by rw [b6, a6],
+      by rw [b7, a7], by rw [b8, a8], by rw [b9, a9]⟩
+  · intro rs sk h1 h2
+    obtain ⟨rt, st, e1, e2, e3⟩ := a.stream rs sk h1 h2
+    obtain ⟨ru, su, f1, f2, f3⟩ := b.stream rt st e1 e2
+    refine ⟨ru, su, f1, f2, ?_⟩
+    rw [← e3]; simp only [List.append_assoc] at f3 ⊢; rw [f3]
+  · intro sk h
+    obtain ⟨sk1, g1, g2⟩ := a.hsame sk h
+    obtain ⟨sk2, g3, g4⟩ := b.hsame sk1 g1
+    exact ⟨sk2, g3, by rw [g4, g2]⟩
+
+/-- updating the chunk-parser fields of reader `r` -/
+theorem setParse_relP (r k : Nat) (s : State) (g : Resp → Resp)
+    (hg : ∀ x, (g x).rid = x.rid ∧ (g x).delivered = x.delivered ∧ (g x).isHead = x.isHead ∧ (g x).fp = x.fp ∧
+      (g x).status = x.status ∧ (g x).chunked = x.chunked ∧ (g x).length = x.length ∧ (g x).conn = x.conn ∧
+      (g x).hasPool = x.hasPool ∧ (g x).buf = x.buf) :
+    ReadRelP r k s (setResp s r g) [] := by
+  refine ⟨rfl, by simp [setResp], rfl, ?_, fun _ _ => rfl, ?_, ?_, fun sk h => ⟨sk, h, rfl⟩⟩
+  · intro i hi; simp [setResp, List.getElem?_modify, Ne.symm hi]
+  · intro rs h
+    obtain ⟨g1, g2, g3, g4, g5, g6, g7, g8, g9, _⟩ := hg rs
+    exact ⟨g rs, by simp [setResp, List.getElem?_modify, h], g1, g2, g3, g4, g5, g6, g7, g8, g9⟩
+  · intro rs sk h1 h2
+    exact ⟨g rs, sk, by simp [setResp, List.getElem?_modify, h1], h2, by simp [(hg rs).2.2.2.2.2.2.2.2.2]⟩
+
+/-- the focused reader consumed `m` (and may have moved its chunk-parser state): what it has to show
+is that its new state fits the rest of the stream -/
+theorem read_core {A : Nat → Attempt → Prop} {s s' : State} {r k : Nat} {X X' Z m : List Cell} {rs rs' : Resp}
+    (p : ProvF A s (some (r, X, Z))) (hr : s.resps[r]? = some rs) (hk : rs.fp = some k) (rel : ReadRelP r k s s' m)
+    (hr' : s'.resps[r]? = some rs')
+    (hE : ∀ a h Rem, a.head = some h → rs.chunked = h.chunked → Expect rs.rid a h (respPos rs) X Rem → m <+: Rem →
+      (∀ n, lenBound h rs.isHead = some n → ∃ l, rs.length = some l ∧ Z.length + l ≤ n) →
+      X' <+: deliverable rs.rid a h ∧ (∀ n, lenBound h rs.isHead = some n → X'.length ≤ n) ∧
+      Expect rs.rid a h (respPos rs') X' (Rem.drop m.length)) :
+    ProvF A s' (some (r, X', Z)) := by
+  obtain ⟨rs1, hb, a1, a2, a3, a4, a5, a6, a7, _, _⟩ := rel.rsame rs hr
+  rw [hr'] at hb; cases hb
+  have hfp : ∀ (i : Nat) (ri : Resp), s'.resps[i]? = some ri → ∃ rs0 : Resp, s.resps[i]? = some rs0 ∧ ri.fp = rs0.fp := by
+    intro i ri hi
     by_cases hir : i = r
     · subst hir
-      obtain ⟨b, hb⟩ := rel.rsame rs hr
-      rw [hb] at hi; cases hi
-      exact ⟨rs, hr, rfl⟩
-    · rw [rel.rother i hir] at hi; exact ⟨rs', hi, rfl⟩
-  refine ⟨?_, ?_, ?_, ?_, ?_, ?_, ?_⟩
-  rotate_right
-  · intro r' X' Z' h hn
+      rw [hr'] at hi; cases hi
+      exact ⟨rs, hr, a4⟩
+    · rw [rel.rother i hir] at hi; exact ⟨ri, hi, rfl⟩
+  refine ⟨?_, ?_, ?_, ?_, ?_, ?_, ?_, ?_⟩
+  rotate_right 2
+  · intro r' X'' Z' h hn
     cases h
-    obtain ⟨b, hb⟩ := rel.rsame rs hr
-    rw [hb] at hn; cases hn
+    rw [hr'] at hn; cases hn
+  · intro k' sk' h1
+    by_cases hkk : k' = k
+    · subst hkk
+      have hkb : k' < s.socks.length := p.fpB r rs k' hr hk
+      obtain ⟨sk0, g1, g2⟩ := rel.hsame _ (List.getElem?_eq_getElem hkb)
+      rw [h1] at g1; cases g1
+      rw [g2]; exact p.heldB k' _ (List.getElem?_eq_getElem hkb)
+    · rw [rel.sother k' hkk] at h1; exact p.heldB k' sk' h1
   · intro c cn k' h1 h2; rw [rel.conns] at h1; rw [rel.slen]; exact p.sockB c cn k' h1 h2
-  · intro i rs' k' h1 h2
-    obtain ⟨rs0, h0, e⟩ := hfp i rs' h1
+  · intro i ri k' h1 h2
+    obtain ⟨rs0, h0, e⟩ := hfp i ri h1
     rw [rel.slen]; exact p.fpB i rs0 k' h0 (by rw [← e]; exact h2)
   · intro c c' cn cn' k' h1 h2 h3 h4; rw [rel.conns] at h1 h2; exact p.sockInj c c' cn cn' k' h1 h2 h3 h4
-  · intro i rs' c cn k' h1 h2 h3 h4
-    obtain ⟨rs0, h0, e⟩ := hfp i rs' h1
+  · intro i ri c cn k' h1 h2 h3 h4
+    obtain ⟨rs0, h0, e⟩ := hfp i ri h1
     rw [rel.conns] at h3
     exact p.pend i rs0 c cn k' h0 (by rw [← e]; exact h2) h3 h4
   · intro i j r1 r2 k' h1 h2 h3 h4
     obtain ⟨q1, g1, e1⟩ := hfp i r1 h1
     obtain ⟨q2, g2, e2⟩ := hfp j r2 h2
     exact p.fpInj i j q1 q2 k' g1 g2 (by rw [← e1]; exact h3) (by rw [← e2]; exact h4)
-  · intro i rs' hi
+  · intro i ri hi
     by_cases hir : i = r
     · subst hir
-      obtain ⟨b, hb⟩ := rel.rsame rs hr
-      rw [hb] at hi; cases hi
+      rw [hr'] at hi; cases hi
       simp only [Focus.x, Focus.z, if_true]
       have h0 := p.resp i rs hr
       simp only [Focus.x, Focus.z, if_true] at h0
       rcases h0 with ⟨h0, _⟩ | ⟨a, hd, fr⟩
       · rw [hk] at h0; cases h0
       · right
-        obtain ⟨sk, hsk, q1, q2⟩ := fr.opn k hk
-        obtain ⟨rs', sk', e1, e2, e3⟩ := rel.stream rs sk hr hsk
-        rw [hb] at e1; cases e1
-        have heq : (X ++ m) ++ b ++ sk'.inbound = bodyCells rs.rid a := by
-          rw [← q1]; simp only [List.append_assoc] at e3 ⊢; rw [e3]
-        refine ⟨a, hd, ⟨fr.att, fr.head, fr.st, fr.dpre, fr.dlen, ?_, ?_, ?_⟩⟩
-        · exact ⟨b ++ sk'.inbound, by rw [← heq]; simp⟩
-        · intro n hn
-          obtain ⟨l, hl1, hl2⟩ := q2 n hn
-          have := hl l hl1
-          simp; omega
-        · intro k' hk'
-          have : k' = k := by
-            have : rs.fp = some k' := hk'
-            rw [hk] at this; cases this; rfl
-          subst this
-          exact ⟨sk', e2, heq, q2⟩
-    · have hi0 : s.resps[i]? = some rs' := by rw [← rel.rother i hir]; exact hi
-      have h0 := p.resp i rs' hi0
+        obtain ⟨sk, Rem, hsk, q0, q1, q2⟩ := fr.opn k hk
+        obtain ⟨rs'', sk', e1, e2, e3⟩ := rel.stream rs sk hr hsk
+        have hall : m ++ (rs''.buf ++ sk'.inbound) <+: Rem := by
+          rw [← List.append_assoc, e3]; exact q1
+        rw [hr'] at e1; cases e1
+        obtain ⟨g1, g2, g3⟩ := hE a hd Rem fr.head fr.ch q0 (prefix_of_append_prefix hall) q2
+        refine ⟨a, hd, ⟨by rw [a1]; exact fr.att, fr.head, by rw [a5]; exact fr.st, by rw [a6]; exact fr.ch,
+          by rw [a1, a2]; exact fr.dpre, by rw [a2, a3]; exact fr.dlen, by rw [a1]; exact g1, by rw [a3]; exact g2, ?_⟩⟩
+        intro k' hk'
+        have : k' = k := by
+          rw [a4, hk] at hk'; cases hk'; rfl
+        subst this
+        exact ⟨sk', Rem.drop m.length, e2, by rw [a1]; exact g3, prefix_drop_of_append hall, by rw [a3, a7]; exact q2⟩
+    · have hi0 : s.resps[i]? = some ri := by rw [← rel.rother i hir]; exact hi
+      have h0 := p.resp i ri hi0
       simp only [Focus.x, Focus.z, hir, if_false] at h0 ⊢
       rcases h0 with h0 | ⟨a, hd, fr⟩
       · exact Or.inl h0
       · right
-        refine ⟨a, hd, ⟨fr.att, fr.head, fr.st, fr.dpre, fr.dlen, fr.xpre, fr.xlen, ?_⟩⟩
+        refine ⟨a, hd, ⟨fr.att, fr.head, fr.st, fr.ch, fr.dpre, fr.dlen, fr.xpre, fr.xlen, ?_⟩⟩
         intro k' hk'
-        obtain ⟨sk, hsk, q⟩ := fr.opn k' hk'
+        obtain ⟨sk, Rem, hsk, q⟩ := fr.opn k' hk'
         have hkk : k' ≠ k := by
           intro e; subst e
-          exact hir (p.fpInj i r rs' rs k' hi0 hr hk' hk)
-        exact ⟨sk, by rw [rel.sother k' hkk]; exact hsk, q⟩
+          exact hir (p.fpInj i r ri rs k' hi0 hr hk' hk)
+        exact ⟨sk, Rem, by rw [rel.sother k' hkk]; exact hsk, q⟩
+
+theorem expect_plain {rid : Nat} {a : Attempt} {h : Head} {pos : Pos} {X Rem : List Cell} (hc : h.chunked = false) :
+    Expect rid a h pos X Rem ↔ X ++ Rem = bodyCells rid a := by
+  unfold Expect; simp [hc]
+
+theorem lenBound_plain {h : Head} {b : Bool} (hc : h.chunked = false) : lenBound h b = initLength h b := by
+  unfold lenBound; simp [hc]
+
+/-- the focused reader of a reply that is not chunked consumed `m` -/
+theorem read_prov {A : Nat → Attempt → Prop} {s s' : State} {r k : Nat} {X m : List Cell} {rs : Resp}
+    (p : ProvF A s (some (r, X, X))) (hr : s.resps[r]? = some rs) (hk : rs.fp = some k) (rel : ReadRel r k s s' m)
+    (hch : rs.chunked = false) (hl : ∀ l, rs.length = some l → m.length ≤ l) :
+    ProvF A s' (some (r, X ++ m, X)) := by
+  obtain ⟨b, hb⟩ := rel.rsame rs hr
+  refine read_core p hr hk rel.toP hb ?_
+  intro a h Rem hh hc hE hm hq
+  have hc' : h.chunked = false := by rw [← hc]; exact hch
+  rw [expect_plain hc'] at hE
+  obtain ⟨t, ht⟩ := hm
+  have hdrop : Rem.drop m.length = t := by rw [← ht]; simp
+  refine ⟨?_, ?_, ?_⟩
+  · unfold deliverable; simp only [hc']
+    exact ⟨t, by rw [← hE, ← ht]; simp⟩
+  · intro n hn
+    obtain ⟨l, hl1, hl2⟩ := hq n hn
+    have := hl l hl1
+    simp; omega
+  · rw [expect_plain hc', hdrop, ← hE, ← ht]; simp
 
 theorem provF_resps {A : Nat → Attempt → Prop} {s s' : State} {f g : Focus} (p : ProvF A s f)
     (hc : s'.conns = s.conns) (hs : s'.socks = s.socks)
     (h : ∀ (i : Nat) (rs' : Resp), s'.resps[i]? = some rs' → ∃ rs : Resp, s.resps[i]? = some rs ∧ rs'.fp = rs.fp ∧
       (RespOk A s rs (f.x i rs) (f.z i rs) → RespOk A s' rs' (g.x i rs') (g.z i rs')))
     (hg : ∀ r X Z, g = some (r, X, Z) → s'.resps[r]? = none → X = []) : ProvF A s' g := by
-  refine ⟨?_, ?_, ?_, ?_, ?_, ?_, hg⟩
+  refine ⟨?_, ?_, ?_, ?_, ?_, ?_, hg, by rw [hs]; exact p.heldB⟩
   · intro c cn k' h1 h2; rw [hc] at h1; rw [hs]; exact p.sockB c cn k' h1 h2
   · intro i rs' k' h1 h2
     obtain ⟨rs0, h0, e, _⟩ := h i rs' h1
@@ -906,7 +1138,7 @@ theorem respOk_socks {A : Nat → Attempt → Prop} {s s' : State} {rs : Resp} {
     (h : RespOk A s rs X Z) : RespOk A s' rs X Z := by
   rcases h with h | ⟨a, hd, fr⟩
   · exact Or.inl h
-  · exact Or.inr ⟨a, hd, ⟨fr.att, fr.head, fr.st, fr.dpre, fr.dlen, fr.xpre, fr.xlen, by rw [hs]; exact fr.opn⟩⟩
+  · exact Or.inr ⟨a, hd, ⟨fr.att, fr.head, fr.st, fr.ch, fr.dpre, fr.dlen, fr.xpre, fr.xlen, by rw [hs]; exact fr.opn⟩⟩
 
 /-- `self.length -= len(data)` after the focused reader consumed data -/
 theorem setlen_prov {A : Nat → Attempt → Prop} {s : State} {r : Nat} {X Z : List Cell} {rs : Resp} {l l' : Nat}
@@ -927,10 +1159,10 @@ theorem setlen_prov {A : Nat → Attempt → Prop} {s : State} {r : Nat} {X Z : 
     rintro (h | ⟨a, hd, fr⟩)
     · exact Or.inl h
     · right
-      refine ⟨a, hd, ⟨fr.att, fr.head, fr.st, fr.dpre, fr.dlen, fr.xpre, fr.xlen, ?_⟩⟩
+      refine ⟨a, hd, ⟨fr.att, fr.head, fr.st, fr.ch, fr.dpre, fr.dlen, fr.xpre, fr.xlen, ?_⟩⟩
       intro k hk
-      obtain ⟨sk, hsk, q1, q2⟩ := fr.opn k hk
-      refine ⟨sk, hsk, q1, ?_⟩
+      obtain ⟨sk, Rem, hsk, q0, q1, q2⟩ := fr.opn k hk
+      refine ⟨sk, Rem, hsk, q0, q1, ?_⟩
       intro n hn
       obtain ⟨l0, e1, e2⟩ := q2 n hn
       rw [hl] at e1; cases e1
@@ -964,7 +1196,7 @@ theorem deliver_prov {A : Nat → Attempt → Prop} {s : State} {r : Nat} {d : L
         simp at h3
         exact ⟨h1, by simp [h2, h3.2], by simp [h2, h3.2]⟩
       · right
-        exact ⟨a, hd, ⟨fr.att, fr.head, fr.st, fr.xpre, fr.xlen, fr.xpre, fr.xlen, fr.opn⟩⟩
+        exact ⟨a, hd, ⟨fr.att, fr.head, fr.st, fr.ch, fr.xpre, fr.xlen, fr.xpre, fr.xlen, fr.opn⟩⟩
   · cases hx : s.resps[i]? with
     | none => simp [hx] at hi
     | some x =>
@@ -985,10 +1217,10 @@ theorem lennone_refocus {A : Nat → Attempt → Prop} {s : State} {r : Nat} {X 
     rcases h with h | ⟨a, hd, fr⟩
     · exact Or.inl h
     · right
-      refine ⟨a, hd, ⟨fr.att, fr.head, fr.st, fr.dpre, fr.dlen, fr.xpre, fr.xlen, ?_⟩⟩
+      refine ⟨a, hd, ⟨fr.att, fr.head, fr.st, fr.ch, fr.dpre, fr.dlen, fr.xpre, fr.xlen, ?_⟩⟩
       intro k hk
-      obtain ⟨sk, hsk, q1, q2⟩ := fr.opn k hk
-      refine ⟨sk, hsk, q1, ?_⟩
+      obtain ⟨sk, Rem, hsk, q0, q1, q2⟩ := fr.opn k hk
+      refine ⟨sk, Rem, hsk, q0, q1, ?_⟩
       intro n hn
       obtain ⟨l, e, _⟩ := q2 n hn
       rw [hl] at e; cases e
@@ -999,10 +1231,1168 @@ theorem ReadRel.resp_at {r k : Nat} {s s' : State} {m : List Cell} (rel : ReadRe
   obtain ⟨b, hb⟩ := rel.rsame rs hr
   exact ⟨_, hb, rfl, rfl⟩
 
+/-! ### the chunked coding and the positions of a parser in it (pure) -/
+
+theorem enc_nil_inv {t : Tag} {E : List Cell} (h : Enc t [] E) : E = [] := by
+  cases h with
+  | nil => rfl
+  | cons n _ E' hn hl _ => simp at hl; omega
+
+theorem lineSize_some {line : List Cell} {n : Nat} (h : lineSize line = some n) :
+    ∃ t1 t2 t3, line = [Cell.fr t1 (.size n), Cell.fr t2 .cr, Cell.fr t3 .lf] := by
+  unfold lineSize at h
+  split at h
+  · cases h; exact ⟨_, _, _, rfl⟩
+  · cases h
+
+theorem expect_chunked {rid : Nat} {a : Attempt} {h : Head} {pos : Pos} {X Rem : List Cell} (hc : h.chunked = true) :
+    Expect rid a h pos X Rem ↔
+    ∃ Brem : List Nat, X ++ Brem.map (Cell.body (.req rid)) = payloadCells rid a ∧
+      match pos with
+      | .size => ∃ E, Enc (.req rid) Brem E ∧ Rem = E ++ endCells rid a
+      | .data n => 0 < n ∧ n ≤ Brem.length ∧ ∃ E, Enc (.req rid) (Brem.drop n) E ∧
+          Rem = (Brem.take n).map (Cell.body (.req rid)) ++ (crlfCells (.req rid) ++ (E ++ endCells rid a))
+      | .crlf => ∃ E, Enc (.req rid) Brem E ∧ Rem = crlfCells (.req rid) ++ (E ++ endCells rid a)
+      | .tail => Brem = [] ∧ ∃ pre, pre ++ Rem = trailerCells (.req rid) a.trailers ++ strayCells a
+      | .bad => False := by
+  unfold Expect; simp [hc]
+
+theorem expect_xpre {rid : Nat} {a : Attempt} {h : Head} {pos : Pos} {X Rem : List Cell} (hc : h.chunked = true)
+    (hE : Expect rid a h pos X Rem) : X <+: deliverable rid a h := by
+  rw [expect_chunked hc] at hE
+  obtain ⟨Brem, e, _⟩ := hE
+  unfold deliverable; simp only [hc, if_true]
+  exact ⟨_, e⟩
+
+theorem lenBound_chunked {h : Head} (hc : h.chunked = true) : lenBound h false = none := by
+  unfold lenBound; simp [hc]
+
+/-- a complete chunk-size line read at a chunk boundary: the parser is now inside that chunk, or (size
+0) past the last chunk -/
+theorem expect_size_line {rid : Nat} {a : Attempt} {h : Head} {X Rem line : List Cell} {n : Nat} (hc : h.chunked = true)
+    (hE : Expect rid a h .size X Rem) (hl : line <+: Rem) (hs : lineSize line = some n) :
+    (n = 0 → Expect rid a h .tail X (Rem.drop line.length)) ∧
+    (∀ j, n = j + 1 → Expect rid a h (.data (j + 1)) X (Rem.drop line.length)) := by
+  obtain ⟨t1, t2, t3, rfl⟩ := lineSize_some hs
+  rw [expect_chunked hc] at hE
+  obtain ⟨Brem, e, E, hEnc, rfl⟩ := hE
+  cases hEnc with
+  | nil =>
+    -- the last-chunk line
+    have hl' : [Cell.fr t1 (.size n), Cell.fr t2 .cr, Cell.fr t3 .lf] <+: lastChunk (.req rid) ++ (trailerCells (.req rid) a.trailers ++ strayCells a) := by
+      simpa [endCells] using hl
+    simp only [lastChunk, List.cons_append, List.nil_append, List.cons_prefix_cons] at hl'
+    obtain ⟨h1, h2, h3, _⟩ := hl'
+    cases h1; cases h2; cases h3
+    refine ⟨fun _ => ?_, fun j hj => by cases hj⟩
+    rw [expect_chunked hc]
+    exact ⟨[], e, rfl, [], by simp [endCells, lastChunk]⟩
+  | cons n' _ E' hn hle hE' =>
+    have hl' : [Cell.fr t1 (.size n), Cell.fr t2 .cr, Cell.fr t3 .lf] <+:
+        oneChunk (.req rid) (Brem.take n') ++ E' ++ endCells rid a := hl
+    simp only [oneChunk, List.cons_append, List.nil_append, List.cons_prefix_cons, List.append_assoc] at hl'
+    obtain ⟨h1, h2, h3, _⟩ := hl'
+    cases h2; cases h3
+    have hn' : n = n' := by
+      cases h1
+      simp [List.length_take, Nat.min_eq_left hle]
+    subst hn'
+    refine ⟨fun h0 => by omega, fun j hj => ?_⟩
+    subst hj
+    rw [expect_chunked hc]
+    refine ⟨Brem, e, by omega, hle, E', hE', ?_⟩
+    simp [oneChunk, crlfCells]
+
+theorem no_size_in_trailer (t : Tag) (ms : List Nat) : ∀ c ∈ trailerCells t ms, ∀ t' n, c ≠ Cell.fr t' (.size n) := by
+  induction ms with
+  | nil => intro c hc t' n; simp [trailerCells] at hc; rcases hc with rfl | rfl <;> simp
+  | cons m ms ih =>
+    intro c hc t' n
+    simp only [trailerCells, List.mem_append, List.mem_replicate, List.mem_cons, List.mem_nil_iff, or_false] at hc
+    rcases hc with (⟨_, rfl⟩ | rfl | rfl) | hc
+    · simp
+    · simp
+    · simp
+    · exact ih c hc t' n
+
+/-- anywhere but at a chunk boundary, what `readline()` returns is not a chunk-size line -/
+theorem expect_no_size {rid : Nat} {a : Attempt} {h : Head} {pos : Pos} {X Rem line : List Cell} {n : Nat} (hc : h.chunked = true)
+    (hp : pos ≠ .size) (hE : Expect rid a h pos X Rem) (hl : line <+: Rem) (hs : lineSize line = some n) : False := by
+  obtain ⟨t1, t2, t3, rfl⟩ := lineSize_some hs
+  rw [expect_chunked hc] at hE
+  obtain ⟨Brem, e, hE⟩ := hE
+  cases pos with
+  | size => exact hp rfl
+  | data m =>
+    obtain ⟨h0, hle, E, _, rfl⟩ := hE
+    cases Brem with
+    | nil => simp at hle; omega
+    | cons b bs =>
+      cases m with
+      | zero => omega
+      | succ m =>
+        simp only [List.take_succ_cons, List.map_cons, List.cons_append, List.cons_prefix_cons] at hl
+        cases hl.1
+  | crlf =>
+    obtain ⟨E, _, rfl⟩ := hE
+    simp only [crlfCells, List.cons_append, List.cons_prefix_cons] at hl
+    cases hl.1
+  | tail =>
+    obtain ⟨_, pre, hpre⟩ := hE
+    obtain ⟨t, ht⟩ := hl
+    have hmem : Cell.fr t1 (.size n) ∈ trailerCells (.req rid) a.trailers ++ strayCells a := by
+      rw [← hpre, ← ht]; simp
+    rcases List.mem_append.mp hmem with hm | hm
+    · exact no_size_in_trailer _ _ _ hm t1 n rfl
+    · simp [strayCells] at hm
+  | bad => exact hE
+
+/-- `n ≤ cl` payload bytes read inside a chunk with `cl` bytes left -/
+theorem expect_data_take {rid : Nat} {a : Attempt} {h : Head} {X Rem m : List Cell} {cl n : Nat} (hc : h.chunked = true)
+    (hE : Expect rid a h (.data cl) X Rem) (hm : m <+: Rem) (hlen : m.length = n) (hn : n ≤ cl) :
+    (n < cl → Expect rid a h (.data (cl - n)) (X ++ m) (Rem.drop n)) ∧
+    (n = cl → Expect rid a h .crlf (X ++ m) (Rem.drop n)) := by
+  rw [expect_chunked hc] at hE
+  obtain ⟨Brem, e, h0, hle, E, hEnc, rfl⟩ := hE
+  have hmm : m = (Brem.take n).map (Cell.body (.req rid)) := by
+    obtain ⟨t, ht⟩ := hm
+    have h1 : m = (m ++ t).take n := by rw [List.take_left' hlen]
+    rw [h1, ht, List.take_append_of_le_length (by simp [List.length_take]; omega), ← List.map_take, List.take_take,
+      Nat.min_eq_left hn]
+  have hpay : (X ++ m) ++ (Brem.drop n).map (Cell.body (.req rid)) = payloadCells rid a := by
+    rw [hmm, List.append_assoc, ← List.map_append, List.take_append_drop]; exact e
+  have hdrop : ((Brem.take cl).map (Cell.body (.req rid)) ++ (crlfCells (.req rid) ++ (E ++ endCells rid a))).drop n =
+      ((Brem.drop n).take (cl - n)).map (Cell.body (.req rid)) ++ (crlfCells (.req rid) ++ (E ++ endCells rid a)) := by
+    rw [List.drop_append_of_le_length (by simp [List.length_take]; omega), ← List.map_drop, List.drop_take]
+  refine ⟨fun hlt => ?_, fun heq => ?_⟩
+  · rw [expect_chunked hc]
+    refine ⟨Brem.drop n, hpay, by omega, by simp; omega, E, ?_, hdrop⟩
+    rw [List.drop_drop]
+    have : n + (cl - n) = cl := by omega
+    rw [this]; exact hEnc
+  · subst heq
+    rw [expect_chunked hc]
+    refine ⟨Brem.drop n, hpay, E, hEnc, ?_⟩
+    rw [hdrop]; simp
+
+/-- the CRLF that ends a chunk -/
+theorem expect_crlf_drop {rid : Nat} {a : Attempt} {h : Head} {X Rem m : List Cell} (hc : h.chunked = true)
+    (hE : Expect rid a h .crlf X Rem) (hlen : m.length = 2) : Expect rid a h .size X (Rem.drop m.length) := by
+  rw [expect_chunked hc] at hE ⊢
+  obtain ⟨Brem, e, E, hEnc, rfl⟩ := hE
+  exact ⟨Brem, e, E, hEnc, by rw [hlen]; simp [crlfCells]⟩
+
+/-- past the last chunk nothing but the trailer section (and unsolicited bytes) follows -/
+theorem expect_tail_drop {rid : Nat} {a : Attempt} {h : Head} {X Rem m : List Cell} (hc : h.chunked = true)
+    (hE : Expect rid a h .tail X Rem) (hm : m <+: Rem) : Expect rid a h .tail X (Rem.drop m.length) := by
+  rw [expect_chunked hc] at hE ⊢
+  obtain ⟨Brem, e, hB, pre, hpre⟩ := hE
+  obtain ⟨t, ht⟩ := hm
+  refine ⟨Brem, e, hB, pre ++ m, ?_⟩
+  rw [← hpre, ← ht]; simp
+
+theorem chunkCells_enc (t : Tag) : ∀ (sizes body : List Nat), Enc t body (chunkCells t sizes body) := by
+  intro sizes
+  induction sizes with
+  | nil =>
+    intro body
+    cases body with
+    | nil => exact Enc.nil
+    | cons b bs =>
+      have := Enc.cons (t := t) (b :: bs).length (b :: bs) [] (by simp) (Nat.le_refl _) (by simpa using Enc.nil)
+      simpa [chunkCells] using this
+  | cons n ns ih =>
+    intro body
+    cases body with
+    | nil => exact Enc.nil
+    | cons b bs =>
+      simp only [chunkCells]
+      split
+      · exact ih _
+      · rename_i hn
+        have hmin : 0 < min n (b :: bs).length := by simp; omega
+        have := Enc.cons (t := t) (min n (b :: bs).length) (b :: bs) (chunkCells t ns ((b :: bs).drop n)) hmin (Nat.min_le_right _ _)
+          (by
+            have e : (b :: bs).drop (min n (b :: bs).length) = (b :: bs).drop n := by
+              rcases Nat.le_total n (b :: bs).length with h | h
+              · rw [Nat.min_eq_left h]
+              · rw [Nat.min_eq_right h, List.drop_length, List.drop_eq_nil_of_le h]
+            rw [e]; exact ih _)
+        have e2 : (b :: bs).take (min n (b :: bs).length) = (b :: bs).take n := by
+          rcases Nat.le_total n (b :: bs).length with h | h
+          · rw [Nat.min_eq_left h]
+          · rw [Nat.min_eq_right h, List.take_length, List.take_of_length_le h]
+        rw [e2] at this
+        exact this
+
+/-- a reader that has just parsed the head stands at the first chunk-size line (or at the start of a
+body that is not chunked) -/
+theorem expect_init (rid : Nat) (a : Attempt) (h : Head) : Expect rid a h .size [] (postCells rid a h) := by
+  unfold Expect
+  split
+  · rename_i hc
+    refine ⟨a.body, by simp [payloadCells], chunkCells (.req rid) a.sizes a.body, chunkCells_enc _ _ _, ?_⟩
+    simp [postCells, framedCells, hc, endCells, strayCells]
+  · rename_i hc
+    simp [postCells, framedCells, hc, bodyCells, payloadCells, strayCells]
+
+theorem lenBound_some {h : Head} {b : Bool} {n : Nat} (hn : lenBound h b = some n) : initLength h b = some n := by
+  unfold lenBound at hn
+  split at hn
+  · cases hn
+  · exact hn
+
+/-! ### a read that failed half-way: the reader is about to be closed -/
+
+/-- reader `r` (reading from socket `k`) has moved bytes and parser state in some way; nothing else
+changed -/
+structure Dirty (r k : Nat) (s s' : State) : Prop where
+  conns : s'.conns = s.conns
+  rlen : s'.resps.length = s.resps.length
+  slen : s'.socks.length = s.socks.length
+  rother : ∀ i, i ≠ r → s'.resps[i]? = s.resps[i]?
+  sother : ∀ j, j ≠ k → s'.socks[j]? = s.socks[j]?
+  rsame : ∀ rs : Resp, s.resps[r]? = some rs → ∃ rs' : Resp, s'.resps[r]? = some rs' ∧ rs'.rid = rs.rid ∧
+    rs'.delivered = rs.delivered ∧ rs'.isHead = rs.isHead ∧ (rs'.fp = rs.fp ∨ rs'.fp = none) ∧ rs'.status = rs.status ∧
+    rs'.chunked = rs.chunked ∧ rs'.length = rs.length ∧ rs'.conn = rs.conn ∧ rs'.hasPool = rs.hasPool
+  hsame : ∀ sk : Sock, s.socks[k]? = some sk → ∃ sk' : Sock, s'.socks[k]? = some sk' ∧ sk'.held = sk.held
+
+theorem ReadRelP.dirty {r k : Nat} {s s' : State} {m : List Cell} (h : ReadRelP r k s s' m) : Dirty r k s s' :=
+  ⟨h.conns, h.rlen, h.slen, h.rother, h.sother,
+    fun rs hr => by
+      obtain ⟨rs', h1, a1, a2, a3, a4, a5, a6, a7, a8, a9⟩ := h.rsame rs hr
+      exact ⟨rs', h1, a1, a2, a3, Or.inl a4, a5, a6, a7, a8, a9⟩,
+    h.hsame⟩
+
+theorem Dirty.refl (r k : Nat) (s : State) : Dirty r k s s := (ReadRelP.refl r k s).dirty
+
+theorem Dirty.trans {r k : Nat} {s t u : State} (a : Dirty r k s t) (b : Dirty r k t u) : Dirty r k s u := by
+  refine ⟨by rw [b.conns, a.conns], by rw [b.rlen, a.rlen], by rw [b.slen, a.slen],
+    fun i hi => by rw [b.rother i hi, a.rother i hi], fun j hj => by rw [b.sother j hj, a.sother j hj], ?_, ?_⟩
+  · intro rs h
+    obtain ⟨r1, h1, a1, a2, a3, a4, a5, a6, a7, a8, a9⟩ := a.rsame rs h
+    obtain ⟨r2, h2, b1, b2, b3, b4, b5, b6, b7, b8, b9⟩ := b.rsame r1 h1
+    refine ⟨r2, h2, by rw [b1, a1], by rw [b2, a2], by rw [b3, a3], ?_, by rw [b5, a5], by rw [b6, a6], by rw [b7, a7],
+      by rw [b8, a8], by rw [b9, a9]⟩
+    rcases b4 with b4 | b4
+    · rcases a4 with a4 | a4
+      · exact Or.inl (by rw [b4, a4])
+      · exact Or.inr (by rw [b4, a4])
+    · exact Or.inr b4
+  · intro sk h
+    obtain ⟨sk1, g1, g2⟩ := a.hsame sk h
+    obtain ⟨sk2, g3, g4⟩ := b.hsame sk1 g1
+    exact ⟨sk2, g3, by rw [g4, g2]⟩
+
+/-- once the reader is closed, whatever it did to its own buffers no longer matters -/
+theorem dirty_safe {r k : Nat} {s0 s1 t : State} (d : Dirty r k s0 s1)
+    (uniq : ∀ (i : Nat) (rs : Resp), s0.resps[i]? = some rs → rs.fp = some k → i = r)
+    (st : Safe s1 t) (hc : respFpClosed t r = true) : Safe s0 t := by
+  rw [respFpClosed_iff] at hc
+  have lift : ∀ (i : Nat) (rs1 : Resp), s1.resps[i]? = some rs1 → i ≠ r → s0.resps[i]? = some rs1 := by
+    intro i rs1 h1 hne; rw [← d.rother i hne]; exact h1
+  have rlt : ∀ (i : Nat) (rs : Resp), s0.resps[i]? = some rs → ∃ rs1 : Resp, s1.resps[i]? = some rs1 ∧ rs1.rid = rs.rid ∧
+      rs1.delivered = rs.delivered ∧ rs1.isHead = rs.isHead ∧ rs1.status = rs.status ∧ rs1.chunked = rs.chunked ∧
+      rs1.length = rs.length := by
+    intro i rs h
+    by_cases hir : i = r
+    · subst hir
+      obtain ⟨r1, h1, a1, a2, a3, _, a5, a6, a7, _, _⟩ := d.rsame rs h
+      exact ⟨r1, h1, a1, a2, a3, a5, a6, a7⟩
+    · exact ⟨rs, by rw [d.rother i hir]; exact h, rfl, rfl, rfl, rfl, rfl, rfl⟩
+  refine ⟨by rw [← d.slen]; exact st.slen, by rw [← d.rlen]; exact st.rlen, ?_, ?_, ?_, ?_, ?_⟩
+  · intro i rs rs' h1 h2
+    obtain ⟨rs1, g1, _, _, _, g5, g6, g7⟩ := rlt i rs h1
+    obtain ⟨b1, b2, b3⟩ := st.st i rs1 rs' g1 h2
+    exact ⟨by rw [b1, g5], by rw [b2, g7], by rw [b3, g6]⟩
+  · intro i rs' k' sk h1 h2 h3
+    obtain ⟨rs1, g1, g2, _⟩ := st.open_old h1 h2
+    have hir : i ≠ r := by
+      intro e; subst e; rw [hc rs' h1] at h2; cases h2
+    have g0 := lift i rs1 g1 hir
+    have hkk : k' ≠ k := by
+      intro e; subst e; exact hir (uniq i rs1 g0 g2)
+    exact st.sk i rs' k' sk h1 h2 (by rw [d.sother k' hkk]; exact h3)
+  · intro i rs' h1
+    rcases st.rs i rs' h1 with ⟨rs1, g1, e1, e2, e3, e4⟩ | ⟨g1, e1, e2⟩
+    · left
+      by_cases hir : i = r
+      · subst hir
+        have hi0 : i < s0.resps.length := by
+          rw [← d.rlen]
+          rcases Nat.lt_or_ge i s1.resps.length with h' | h'
+          · exact h'
+          · rw [List.getElem?_eq_none h'] at g1; cases g1
+        obtain ⟨r1, h1', a1, a2, a3, _, _, _, _, _, _⟩ := d.rsame _ (List.getElem?_eq_getElem hi0)
+        rw [g1] at h1'; cases h1'
+        exact ⟨_, List.getElem?_eq_getElem hi0, by rw [e1, a1], by rw [e2, a2], by rw [e3, a3], Or.inl (hc rs' h1)⟩
+      · exact ⟨rs1, lift i rs1 g1 hir, e1, e2, e3, e4⟩
+    · right
+      refine ⟨?_, e1, e2⟩
+      have : s1.resps.length ≤ i := by
+        rcases Nat.lt_or_ge i s1.resps.length with h' | h'
+        · rw [List.getElem?_eq_getElem h'] at g1; cases g1
+        · exact h'
+      exact List.getElem?_eq_none (by rw [← d.rlen]; exact this)
+  · intro c cn' k' h1 h2
+    rcases st.cn c cn' k' h1 h2 with ⟨cn, g1, g2, g3⟩ | ⟨g1, g2, g3, g4⟩
+    · exact Or.inl ⟨cn, by rw [← d.conns]; exact g1, g2, g3⟩
+    · exact Or.inr ⟨by rw [← d.slen]; exact g1, g2, g3, g4⟩
+  · intro k' sk' h1
+    rcases st.hd k' sk' h1 with ⟨sk1, g1, g2⟩ | g
+    · left
+      by_cases hkk : k' = k
+      · subst hkk
+        have hk0 : k' < s0.socks.length := by
+          rw [← d.slen]
+          rcases Nat.lt_or_ge k' s1.socks.length with h' | h'
+          · exact h'
+          · rw [List.getElem?_eq_none h'] at g1; cases g1
+        obtain ⟨sk2, q1, q2⟩ := d.hsame _ (List.getElem?_eq_getElem hk0)
+        rw [g1] at q1; cases q1
+        exact ⟨_, List.getElem?_eq_getElem hk0, by rw [g2, q2]⟩
+      · exact ⟨sk1, by rw [← d.sother k' hkk]; exact g1, g2⟩
+    · exact Or.inr g
+
+/-- what a failed read of the focused reader `r` leaves behind: a state that turns into a good one
+as soon as `r` is closed (which every caller does at once) -/
+def ExcPost (A : Nat → Attempt → Prop) (r : Nat) (s' : State) : Prop :=
+  ∀ t : State, Safe s' t → respFpClosed t r = true → Prov A t
+
+theorem ExcPost.safe {A : Nat → Attempt → Prop} {r : Nat} {s s' : State} (h : ExcPost A r s) (st : Safe s s') : ExcPost A r s' :=
+  fun t st' hc => h t (st.trans st') hc
+
+theorem excPost_of_provF {A : Nat → Attempt → Prop} {s : State} {r : Nat} {X Z : List Cell}
+    (p : ProvF A s (some (r, X, Z))) : ExcPost A r s :=
+  fun t st hc => closed_unfocus (st.prov p) hc
+
+theorem excPost_of_dirty {A : Nat → Attempt → Prop} {s0 s1 : State} {r k : Nat} {X Z : List Cell} {rs : Resp}
+    (p : ProvF A s0 (some (r, X, Z))) (hr : s0.resps[r]? = some rs) (hk : rs.fp = some k) (d : Dirty r k s0 s1) :
+    ExcPost A r s1 := by
+  intro t st hc
+  have uniq : ∀ (i : Nat) (ri : Resp), s0.resps[i]? = some ri → ri.fp = some k → i = r :=
+    fun i ri h1 h2 => p.fpInj i r ri rs k h1 hr h2 hk
+  exact closed_unfocus ((dirty_safe d uniq st hc).prov p) hc
+
+/-- the `Z` component of the focus only matters for a length-delimited reply -/
+theorem chunked_refocus_z {A : Nat → Attempt → Prop} {s : State} {r : Nat} {X Z : List Cell} (Z' : List Cell) {rs : Resp}
+    (p : ProvF A s (some (r, X, Z))) (hr : s.resps[r]? = some rs) (hch : rs.chunked = true) (hnh : rs.isHead = false) :
+    ProvF A s (some (r, X, Z')) := by
+  refine provF_refocus p ?_ (by intro r' X' Z'' h hn; cases h; exact p.foc _ _ _ rfl hn)
+  intro i rs' hi h
+  by_cases hir : i = r
+  · subst hir
+    rw [hr] at hi; cases hi
+    simp only [Focus.x, Focus.z, if_true] at h ⊢
+    rcases h with h | ⟨a, hd, fr⟩
+    · exact Or.inl h
+    · right
+      refine ⟨a, hd, ⟨fr.att, fr.head, fr.st, fr.ch, fr.dpre, fr.dlen, fr.xpre, fr.xlen, ?_⟩⟩
+      intro k hk
+      obtain ⟨sk, Rem, hsk, q0, q1, q2⟩ := fr.opn k hk
+      refine ⟨sk, Rem, hsk, q0, q1, ?_⟩
+      intro n hn
+      have : lenBound hd rs.isHead = none := by
+        rw [hnh]; exact lenBound_chunked (by rw [← fr.ch]; exact hch)
+      rw [this] at hn; cases hn
+  · simpa [Focus.x, Focus.z, hir] using h
+
+/-- a focus on what has been delivered anyway is no focus -/
+theorem unfocus_same {A : Nat → Attempt → Prop} {s : State} {r : Nat}
+    (p : ProvF A s (some (r, delivOf s r, delivOf s r))) : Prov A s := by
+  refine provF_refocus p ?_ (by intro _ _ _ h; cases h)
+  intro i rs hi h
+  by_cases hir : i = r
+  · subst hir
+    simpa [Focus.x, Focus.z, delivOf, hi] using h
+  · simpa [Focus.x, Focus.z, hir] using h
+
+/-- the focused reader of a chunked reply consumed `m` and moved its chunk parser -/
+theorem read_chunk {A : Nat → Attempt → Prop} {s s' : State} {r k : Nat} {X X' Z m : List Cell} {rs rs' : Resp}
+    (p : ProvF A s (some (r, X, Z))) (hr : s.resps[r]? = some rs) (hk : rs.fp = some k)
+    (hch : rs.chunked = true) (hnh : rs.isHead = false) (rel : ReadRelP r k s s' m) (hr' : s'.resps[r]? = some rs')
+    (hE : ∀ a h Rem, h.chunked = true → Expect rs.rid a h (respPos rs) X Rem → m <+: Rem →
+      Expect rs.rid a h (respPos rs') X' (Rem.drop m.length)) :
+    ProvF A s' (some (r, X', Z)) := by
+  refine read_core p hr hk rel hr' ?_
+  intro a h Rem hh hc hX hm _
+  have hc' : h.chunked = true := by rw [← hc]; exact hch
+  have g := hE a h Rem hc' hX hm
+  refine ⟨expect_xpre hc' g, ?_, g⟩
+  intro n hn
+  rw [hnh, lenBound_chunked hc'] at hn; cases hn
+
+/-! ### the primitive reads of the chunk parsers -/
+
+theorem fpReadline_rel : ∀ (fuel : Nat) (s : State) (r k : Nat) (acc : List Cell) (s' : State) (out : DataOut),
+    fpReadline fuel s r k acc = (s', out) →
+    ∃ m, ReadRel r k s s' m ∧ ∀ d, out = .data d → d = acc ++ m := by
+  intro fuel
+  induction fuel with
+  | zero =>
+    intro s r k acc s' out h
+    simp [fpReadline] at h
+    obtain ⟨rfl, rfl⟩ := h
+    exact ⟨[], ReadRel.refl _ _ _, by intro d hd; cases hd⟩
+  | succ fuel ih =>
+    intro s r k acc s' out h
+    unfold fpReadline at h
+    split at h
+    · simp at h
+      obtain ⟨rfl, rfl⟩ := h
+      exact ⟨[], ReadRel.refl _ _ _, by intro d hd; cases hd; simp⟩
+    · rename_i rs hrs
+      split at h
+      · rename_i n hn
+        simp at h
+        obtain ⟨rfl, rfl⟩ := h
+        refine ⟨rs.buf.take n, setBuf_rel r k s rs _ (fun x => x.buf.drop n) hrs (List.take_append_drop n rs.buf).symm, ?_⟩
+        intro d hd; cases hd; rfl
+      · have r1 := setBuf_rel r k s rs rs.buf (fun _ => []) hrs (by simp)
+        simp only at h
+        generalize hs1 : (setResp s r fun x => { x with buf := [] }) = s1 at h r1
+        have r2 := recvInto_rel s1 r k bufSize
+        generalize hrv : recvInto s1 r k bufSize = res at h r2
+        obtain ⟨s2, o⟩ := res
+        have r12 := r1.trans r2
+        cases o with
+        | got =>
+          simp only at h
+          obtain ⟨m, rm, hd⟩ := ih s2 r k (acc ++ rs.buf) s' out h
+          refine ⟨rs.buf ++ m, ?_, ?_⟩
+          · have := r12.trans rm; simpa using this
+          · intro d hd'; rw [hd d hd']; simp
+        | eof =>
+          simp at h
+          obtain ⟨rfl, rfl⟩ := h
+          refine ⟨rs.buf, by simpa using r12, ?_⟩
+          intro d hd; cases hd; rfl
+        | exc e =>
+          simp at h
+          obtain ⟨rfl, rfl⟩ := h
+          refine ⟨rs.buf, by simpa using r12, ?_⟩
+          intro d hd; cases hd
+
+theorem safeRead_rel {s s' : State} {r k n : Nat} {out : DataOut} (h : safeRead s r k n = (s', out)) :
+    ∃ m, ReadRel r k s s' m ∧ ∀ d, out = .data d → d = m ∧ m.length = n := by
+  unfold safeRead at h
+  generalize hfr : fpRead (inboundLen s k + 2) s r k n [] = res at h
+  obtain ⟨s1, o⟩ := res
+  obtain ⟨m, rel, hlen, hd⟩ := fpRead_rel _ _ _ _ _ _ _ _ hfr
+  cases o with
+  | exc e => simp at h; obtain ⟨rfl, rfl⟩ := h; exact ⟨m, rel, by intro d hd'; cases hd'⟩
+  | data d =>
+    have hdm : d = m := by simpa using hd d rfl
+    subst hdm
+    dsimp only at h
+    split at h
+    · cases h; exact ⟨d, rel, by intro d' hd'; cases hd'⟩
+    · rename_i hlt
+      cases h
+      exact ⟨d, rel, by intro d' hd'; cases hd'; exact ⟨rfl, by omega⟩⟩
+
+/-! ### `read_chunked`: urllib3's own chunk parser -/
+
+theorem closeFp_dirty (s : State) (r k : Nat) : Dirty r k s (closeFp s r) := by
+  unfold closeFp
+  split
+  · exact Dirty.refl _ _ _
+  · rename_i x h0
+    split
+    · exact Dirty.refl _ _ _
+    · have e : ∀ k', (noteClose (setResp s r fun x => { x with fp := none, buf := [] }) k').conns = s.conns ∧
+          (noteClose (setResp s r fun x => { x with fp := none, buf := [] }) k').resps = (setResp s r fun x => { x with fp := none, buf := [] }).resps ∧
+          (noteClose (setResp s r fun x => { x with fp := none, buf := [] }) k').socks = s.socks := by
+        intro k'; unfold noteClose; split <;> exact ⟨rfl, rfl, rfl⟩
+      rename_i k' _
+      obtain ⟨e1, e2, e3⟩ := e k'
+      refine ⟨e1, by rw [e2]; simp [setResp], by rw [e3], ?_, fun j _ => by rw [e3], ?_, fun sk h => ⟨sk, by rw [e3]; exact h, rfl⟩⟩
+      · intro i hi; rw [e2]; simp [setResp, List.getElem?_modify, Ne.symm hi]
+      · intro rs h; rw [h0] at h; cases h
+        exact ⟨{ x with fp := none, buf := [] }, by rw [e2]; simp [setResp, List.getElem?_modify, h0], rfl, rfl, rfl, Or.inr rfl, rfl, rfl, rfl, rfl, rfl⟩
+
+theorem updateChunkLength_shape (s : State) (r k : Nat) :
+    ∃ s1, Dirty r k s s1 ∧ Safe s1 (updateChunkLength s r k).1 := by
+  unfold updateChunkLength
+  split
+  · exact ⟨s, Dirty.refl _ _ _, Safe.refl _⟩
+  · generalize hfr : fpReadline (inboundLen s k + 2) s r k [] = res
+    obtain ⟨s1, o⟩ := res
+    obtain ⟨m, rel, _⟩ := fpReadline_rel _ _ _ _ _ _ _ hfr
+    cases o with
+    | exc e => exact ⟨s1, rel.toP.dirty, Safe.refl _⟩
+    | data line =>
+      dsimp only
+      split
+      · refine ⟨_, rel.toP.dirty.trans (setParse_relP r k s1 _ ?_).dirty, Safe.refl _⟩
+        intro x; exact ⟨rfl, rfl, rfl, rfl, rfl, rfl, rfl, rfl, rfl, rfl⟩
+      · exact ⟨s1, rel.toP.dirty, respClose_safe s1 r⟩
+
+theorem respPos_left {rs : Resp} {n : Nat} (h : rs.hcLeft = none) :
+    respPos { rs with chunkLeft := some n } = match n with | 0 => Pos.tail | j + 1 => Pos.data (j + 1) := by
+  cases n <;> simp [respPos, h]
+
+theorem updateChunkLength_prov {A : Nat → Attempt → Prop} {s s' : State} {r k : Nat} {X Z : List Cell} {rs : Resp}
+    (p : ProvF A s (some (r, X, Z))) (hr : s.resps[r]? = some rs) (hk : rs.fp = some k)
+    (hch : rs.chunked = true) (hnh : rs.isHead = false) (h : updateChunkLength s r k = (s', none)) :
+    ProvF A s' (some (r, X, Z)) ∧ ∃ (rs' : Resp) (m : List Cell), ReadRelP r k s s' m ∧ s'.resps[r]? = some rs' ∧
+      rs'.chunkLeft.isSome = true := by
+  unfold updateChunkLength at h
+  have hcl : chunkLeftOf s r = rs.chunkLeft := by simp [chunkLeftOf, hr]
+  rw [hcl] at h
+  split at h
+  · rename_i n hn
+    cases h
+    exact ⟨p, rs, [], ReadRelP.refl _ _ _, hr, by rw [hn]; rfl⟩
+  · rename_i hn
+    generalize hfr : fpReadline (inboundLen s k + 2) s r k [] = res at h
+    obtain ⟨s1, o⟩ := res
+    obtain ⟨m, rel, hd⟩ := fpReadline_rel _ _ _ _ _ _ _ hfr
+    cases o with
+    | exc e => cases h
+    | data line =>
+      have hlm : line = m := by simpa using hd line rfl
+      subst hlm
+      dsimp only at h
+      split at h
+      · rename_i n hsz
+        cases h
+        obtain ⟨b, hb⟩ := rel.rsame rs hr
+        have relP : ReadRelP r k s (setResp s1 r fun x => { x with chunkLeft := some n }) (line ++ []) :=
+          rel.toP.trans (setParse_relP r k s1 _ (fun x => ⟨rfl, rfl, rfl, rfl, rfl, rfl, rfl, rfl, rfl, rfl⟩))
+        rw [List.append_nil] at relP
+        have hr' : (setResp s1 r fun x => { x with chunkLeft := some n }).resps[r]? =
+            some { rs with buf := b, chunkLeft := some n } := by
+          simp [setResp, List.getElem?_modify, hb]
+        refine ⟨read_chunk p hr hk hch hnh relP hr' ?_, _, line, relP, hr', rfl⟩
+        intro a hd' Rem hc hE hm
+        -- where was the parser?  only at a chunk boundary can a chunk-size line have been read
+        cases hhc : rs.hcLeft with
+        | some v =>
+          exfalso
+          have hpos : respPos rs ≠ .size := by
+            cases v <;> simp [respPos, hn, hhc]
+          exact expect_no_size hc hpos hE hm hsz
+        | none =>
+          have hpos : respPos rs = .size := by simp [respPos, hn, hhc]
+          rw [hpos] at hE
+          obtain ⟨g0, g1⟩ := expect_size_line hc hE hm hsz
+          cases n with
+          | zero => simp only [respPos, hhc]; exact g0 rfl
+          | succ j => simp only [respPos, hhc]; exact g1 j rfl
+      · cases h
+
+theorem safeRead_dirty (s : State) (r k n : Nat) : Dirty r k s (safeRead s r k n).1 := by
+  obtain ⟨m, rel, _⟩ := safeRead_rel (s := s) (r := r) (k := k) (n := n) rfl
+  exact rel.toP.dirty
+
+theorem setParse_dirty (r k : Nat) (s : State) (g : Resp → Resp)
+    (hg : ∀ x, (g x).rid = x.rid ∧ (g x).delivered = x.delivered ∧ (g x).isHead = x.isHead ∧ (g x).fp = x.fp ∧
+      (g x).status = x.status ∧ (g x).chunked = x.chunked ∧ (g x).length = x.length ∧ (g x).conn = x.conn ∧
+      (g x).hasPool = x.hasPool ∧ (g x).buf = x.buf) : Dirty r k s (setResp s r g) :=
+  (setParse_relP r k s g hg).dirty
+
+theorem handleChunk_dirty (s : State) (r k amt : Nat) : Dirty r k s (handleChunk s r k amt).1 := by
+  unfold handleChunk
+  split
+  · exact Dirty.refl _ _ _
+  · split
+    · have d1 := safeRead_dirty s r k amt
+      generalize safeRead s r k amt = res at d1
+      obtain ⟨s1, o⟩ := res
+      cases o with
+      | exc e => exact d1
+      | data d => exact d1.trans (setParse_dirty r k s1 _ (fun x => ⟨rfl, rfl, rfl, rfl, rfl, rfl, rfl, rfl, rfl, rfl⟩))
+    · rename_i cl _ _
+      have d1 := safeRead_dirty s r k cl
+      generalize safeRead s r k cl = res at d1
+      obtain ⟨s1, o⟩ := res
+      cases o with
+      | exc e => exact d1
+      | data d =>
+        dsimp only
+        have d2 := safeRead_dirty s1 r k 2
+        generalize safeRead s1 r k 2 = res2 at d2
+        obtain ⟨s2, o2⟩ := res2
+        cases o2 with
+        | exc e => exact d1.trans d2
+        | data d' =>
+          exact (d1.trans d2).trans (setParse_dirty r k s2 _ (fun x => ⟨rfl, rfl, rfl, rfl, rfl, rfl, rfl, rfl, rfl, rfl⟩))
+
+theorem handleChunk_prov {A : Nat → Attempt → Prop} {s s' : State} {r k amt j : Nat} {X Z d : List Cell} {rs : Resp}
+    (p : ProvF A s (some (r, X, Z))) (hr : s.resps[r]? = some rs) (hk : rs.fp = some k)
+    (hch : rs.chunked = true) (hnh : rs.isHead = false) (hcl : rs.chunkLeft = some (j + 1))
+    (h : handleChunk s r k amt = (s', .data d)) :
+    ProvF A s' (some (r, X ++ d, Z)) ∧ ∃ (rs' : Resp) (m : List Cell), ReadRelP r k s s' m ∧ s'.resps[r]? = some rs' := by
+  unfold handleChunk at h
+  have hcl' : chunkLeftOf s r = some (j + 1) := by simp [chunkLeftOf, hr, hcl]
+  rw [hcl'] at h
+  dsimp only at h
+  -- the parser stands inside a chunk
+  have hposE : ∀ a hd Rem, hd.chunked = true → Expect rs.rid a hd (respPos rs) X Rem → Expect rs.rid a hd (.data (j + 1)) X Rem ∧ rs.hcLeft = none := by
+    intro a hd Rem hc hE
+    cases hhc : rs.hcLeft with
+    | some v =>
+      exfalso
+      have : respPos rs = .bad := by simp [respPos, hcl, hhc]
+      rw [this, expect_chunked hc] at hE
+      obtain ⟨_, _, f⟩ := hE; exact f
+    | none =>
+      have : respPos rs = .data (j + 1) := by simp [respPos, hcl, hhc]
+      rw [this] at hE; exact ⟨hE, rfl⟩
+  split at h
+  · rename_i hlt
+    generalize hsr : safeRead s r k amt = res at h
+    obtain ⟨s1, o⟩ := res
+    obtain ⟨m, rel, hd⟩ := safeRead_rel hsr
+    cases o with
+    | exc e => cases h
+    | data d0 =>
+      obtain ⟨hdm, hlen⟩ := hd d0 rfl
+      subst hdm
+      cases h
+      obtain ⟨b, hb⟩ := rel.rsame rs hr
+      have relP : ReadRelP r k s (setResp s1 r fun x => { x with chunkLeft := some (j + 1 - amt) }) (d ++ []) :=
+        rel.toP.trans (setParse_relP r k s1 _ (fun x => ⟨rfl, rfl, rfl, rfl, rfl, rfl, rfl, rfl, rfl, rfl⟩))
+      rw [List.append_nil] at relP
+      have hr' : (setResp s1 r fun x => { x with chunkLeft := some (j + 1 - amt) }).resps[r]? =
+          some { rs with buf := b, chunkLeft := some (j + 1 - amt) } := by
+        simp [setResp, List.getElem?_modify, hb]
+      refine ⟨read_chunk p hr hk hch hnh relP hr' ?_, _, d, relP, hr'⟩
+      intro a hd' Rem hc hE hm
+      obtain ⟨hE', hhc⟩ := hposE a hd' Rem hc hE
+      obtain ⟨g1, _⟩ := expect_data_take hc hE' hm hlen (by omega)
+      obtain ⟨i, hi⟩ : ∃ i, j + 1 - amt = i + 1 := ⟨j - amt, by omega⟩
+      have := g1 hlt
+      rw [hlen]
+      simp only [respPos, hhc, hi]
+      rw [hi] at this; exact this
+  · rename_i hge
+    generalize hsr : safeRead s r k (j + 1) = res at h
+    obtain ⟨s1, o⟩ := res
+    obtain ⟨m1, rel1, hd1⟩ := safeRead_rel hsr
+    cases o with
+    | exc e => cases h
+    | data d0 =>
+      obtain ⟨hdm, hlen1⟩ := hd1 d0 rfl
+      subst hdm
+      dsimp only at h
+      generalize hsr2 : safeRead s1 r k 2 = res2 at h
+      obtain ⟨s2, o2⟩ := res2
+      obtain ⟨m2, rel2, hd2⟩ := safeRead_rel hsr2
+      cases o2 with
+      | exc e => cases h
+      | data d2 =>
+        obtain ⟨hdm2, hlen2⟩ := hd2 d2 rfl
+        subst hdm2
+        cases h
+        have rel12 := rel1.trans rel2
+        obtain ⟨b, hb⟩ := rel12.rsame rs hr
+        have relP : ReadRelP r k s (setResp s2 r fun x => { x with chunkLeft := none }) (d ++ d2 ++ []) :=
+          rel12.toP.trans (setParse_relP r k s2 _ (fun x => ⟨rfl, rfl, rfl, rfl, rfl, rfl, rfl, rfl, rfl, rfl⟩))
+        rw [List.append_nil] at relP
+        have hr' : (setResp s2 r fun x => { x with chunkLeft := none }).resps[r]? =
+            some { rs with buf := b, chunkLeft := none } := by
+          simp [setResp, List.getElem?_modify, hb]
+        refine ⟨read_chunk p hr hk hch hnh relP hr' ?_, _, _, relP, hr'⟩
+        intro a hd' Rem hc hE hm
+        obtain ⟨hE', hhc⟩ := hposE a hd' Rem hc hE
+        have hm1 : d <+: Rem := prefix_of_append_prefix hm
+        obtain ⟨_, g2⟩ := expect_data_take hc hE' hm1 hlen1 (Nat.le_refl _)
+        have g3 := expect_crlf_drop (m := d2) hc (g2 rfl) hlen2
+        have hm2 : d2 <+: Rem.drop d.length := prefix_drop_of_append hm
+        simp only [respPos, hhc]
+        have e : (Rem.drop (j + 1)).drop d2.length = Rem.drop (d ++ d2).length := by
+          rw [List.drop_drop]; congr 1; simp; omega
+        rw [← e]; exact g3
+
+theorem deliver_resp_at {s : State} {r : Nat} {rs : Resp} (d : List Cell) (hr : s.resps[r]? = some rs) :
+    (deliver s r d).resps[r]? = some { rs with delivered := rs.delivered ++ d } := by
+  simp [deliver, setResp, List.getElem?_modify, hr]
+
+theorem chunkLoop_prov {A : Nat → Attempt → Prop} {r k amt : Nat} : ∀ (fuel : Nat) (s s' : State) (acc : List Cell) (out : DataOut) (rs : Resp),
+    Prov A s → s.resps[r]? = some rs → rs.fp = some k → rs.chunked = true → rs.isHead = false →
+    chunkLoop fuel s r k amt acc = (s', out) →
+    (∀ d, out = .data d → Prov A s' ∧ ∃ rs' : Resp, s'.resps[r]? = some rs' ∧ rs'.fp = some k) ∧
+    (∀ e, out = .exc e → ExcPost A r s') := by
+  intro fuel
+  induction fuel with
+  | zero =>
+    intro s s' acc out rs p hr hk hch hnh h
+    simp [chunkLoop] at h; obtain ⟨rfl, rfl⟩ := h
+    exact ⟨(by intro d hd; cases hd), fun _ _ => excPost_of_provF (focus_intro p r)⟩
+  | succ fuel ih =>
+    intro s s' acc out rs p hr hk hch hnh h
+    have pf := focus_intro p r
+    unfold chunkLoop at h
+    obtain ⟨sd, dd, dst⟩ := updateChunkLength_shape s r k
+    generalize hu : updateChunkLength s r k = res at h dst
+    obtain ⟨s1, oe⟩ := res
+    cases oe with
+    | some e =>
+      cases h
+      exact ⟨(by intro d hd; cases hd), fun _ _ => (excPost_of_dirty pf hr hk dd).safe dst⟩
+    | none =>
+      dsimp only at h
+      obtain ⟨p1, rs1, m1, rel1, hr1, hsome⟩ := updateChunkLength_prov pf hr hk hch hnh hu
+      obtain ⟨rx, hrx, a1, a2, a3, a4, a5, a6, a7, _, _⟩ := rel1.rsame rs hr
+      rw [hr1] at hrx; cases hrx
+      have hk1 : rs1.fp = some k := by rw [a4]; exact hk
+      have hdel : delivOf s1 r = delivOf s r := by simp [delivOf, hr1, hr, a2]
+      split at h
+      · cases h
+        refine ⟨?_, by intro e he; cases he⟩
+        intro d hd
+        rw [← hdel] at p1
+        exact ⟨unfocus_same p1, rs1, hr1, hk1⟩
+      · rename_i hne
+        have hcl1 : chunkLeftOf s1 r = rs1.chunkLeft := by simp [chunkLeftOf, hr1]
+        obtain ⟨j, hj⟩ : ∃ j, rs1.chunkLeft = some (j + 1) := by
+          cases hc : rs1.chunkLeft with
+          | none => rw [hc] at hsome; cases hsome
+          | some v =>
+            cases v with
+            | zero => rw [hcl1, hc] at hne; simp at hne
+            | succ j => exact ⟨j, rfl⟩
+        have dh := handleChunk_dirty s1 r k amt
+        generalize hh : handleChunk s1 r k amt = res at h dh
+        obtain ⟨s2, o⟩ := res
+        cases o with
+        | exc e =>
+          cases h
+          exact ⟨(by intro d hd; cases hd), fun _ _ => excPost_of_dirty p1 hr1 hk1 dh⟩
+        | data d =>
+          dsimp only at h
+          obtain ⟨p2, rs2, m2, rel2, hr2⟩ := handleChunk_prov p1 hr1 hk1 (by rw [a6]; exact hch) (by rw [a3]; exact hnh) hj hh
+          obtain ⟨ry, hry, b1, b2, b3, b4, b5, b6, b7, _, _⟩ := rel2.rsame rs1 hr1
+          rw [hr2] at hry; cases hry
+          have hdel2 : delivOf s2 r = delivOf s r := by simp [delivOf, hr2, hr, b2, a2]
+          have p2' := chunked_refocus_z (delivOf s2 r ++ d) p2 hr2 (by rw [b6, a6]; exact hch) (by rw [b3, a3]; exact hnh)
+          rw [← hdel2] at p2'
+          have p3 := deliver_prov p2'
+          exact ih (deliver s2 r d) s' _ out _ p3 (deliver_resp_at d hr2) (by show rs2.fp = some k; rw [b4]; exact hk1)
+            (by show rs2.chunked = true; rw [b6, a6]; exact hch) (by show rs2.isHead = false; rw [b3, a3]; exact hnh) h
+
+theorem skipTrailers_dirty (r k : Nat) : ∀ (fuel : Nat) (s : State), Dirty r k s (skipTrailers fuel s r k).1 := by
+  intro fuel
+  induction fuel with
+  | zero => intro s; exact Dirty.refl _ _ _
+  | succ fuel ih =>
+    intro s
+    unfold skipTrailers
+    generalize hfr : fpReadline (inboundLen s k + 2) s r k [] = res
+    obtain ⟨s1, o⟩ := res
+    obtain ⟨m, rel, _⟩ := fpReadline_rel _ _ _ _ _ _ _ hfr
+    cases o with
+    | exc e => exact rel.toP.dirty
+    | data line =>
+      dsimp only
+      split
+      · exact rel.toP.dirty.trans (setParse_dirty r k s1 _ (fun x => ⟨rfl, rfl, rfl, rfl, rfl, rfl, rfl, rfl, rfl, rfl⟩))
+      · split
+        · exact rel.toP.dirty.trans (setParse_dirty r k s1 _ (fun x => ⟨rfl, rfl, rfl, rfl, rfl, rfl, rfl, rfl, rfl, rfl⟩))
+        · exact rel.toP.dirty.trans (ih s1)
+
+theorem readChunkedBody_prov {A : Nat → Attempt → Prop} {s s' : State} {r amt : Nat} {out : DataOut}
+    (p : Prov A s) (hc : respChunked s r = true) (h : readChunkedBody s r amt = (s', out)) :
+    (∀ d, out = .data d → Prov A s') ∧ (∀ e, out = .exc e → ExcPost A r s') := by
+  unfold readChunkedBody at h
+  split at h
+  · cases h; exact ⟨fun _ _ => p, by intro e he; cases he⟩
+  · rename_i rs hr
+    split at h
+    · cases h; exact ⟨fun _ _ => (closeFp_safe s r).prov p, by intro e he; cases he⟩
+    · rename_i hnh
+      split at h
+      · cases h; exact ⟨fun _ _ => p, by intro e he; cases he⟩
+      · rename_i k hk
+        dsimp only at h
+        generalize inboundLen s k + rs.buf.length + 2 = fuel at h
+        generalize hcl : chunkLoop fuel s r k amt [] = res at h
+        obtain ⟨s1, o⟩ := res
+        have hch : rs.chunked = true := by simpa [respChunked, hr] using hc
+        · obtain ⟨q1, q2⟩ := chunkLoop_prov fuel s s1 [] o rs p hr hk hch (by simpa using hnh) hcl
+          cases o with
+          | exc e => cases h; exact ⟨(by intro d hd; cases hd), fun _ _ => q2 e rfl⟩
+          | data d =>
+            dsimp only at h
+            obtain ⟨p1, rs1, hr1, hk1⟩ := q1 d rfl
+            have pf := focus_intro p1 r
+            have dd := skipTrailers_dirty r k fuel s1
+            generalize skipTrailers fuel s1 r k = res2 at h dd
+            obtain ⟨s2, oe⟩ := res2
+            have ex := excPost_of_dirty pf hr1 hk1 dd
+            cases oe with
+            | some e => cases h; exact ⟨(by intro d hd; cases hd), fun _ _ => ex⟩
+            | none =>
+              cases h
+              exact ⟨fun _ _ => ex _ (closeFp_safe s2 r) (closeFp_closed s2 r), by intro e he; cases he⟩
+
+/-! ### `http.client`'s chunk reader -/
+
+theorem fpReadline_dirty (fuel : Nat) (s : State) (r k : Nat) (acc : List Cell) : Dirty r k s (fpReadline fuel s r k acc).1 := by
+  obtain ⟨m, rel, _⟩ := fpReadline_rel fuel s r k acc _ _ rfl
+  exact rel.toP.dirty
+
+theorem hcDiscardTrailer_dirty (r k : Nat) : ∀ (fuel : Nat) (s : State), Dirty r k s (hcDiscardTrailer fuel s r k).1 := by
+  intro fuel
+  induction fuel with
+  | zero => intro s; exact Dirty.refl _ _ _
+  | succ fuel ih =>
+    intro s
+    unfold hcDiscardTrailer
+    have d1 := fpReadline_dirty (inboundLen s k + 2) s r k []
+    generalize fpReadline (inboundLen s k + 2) s r k [] = res at d1
+    obtain ⟨s1, o⟩ := res
+    cases o with
+    | exc e => exact d1
+    | data line =>
+      dsimp only
+      split
+      · exact d1.trans (setParse_dirty r k s1 _ (fun x => ⟨rfl, rfl, rfl, rfl, rfl, rfl, rfl, rfl, rfl, rfl⟩))
+      · split
+        · exact d1.trans (setParse_dirty r k s1 _ (fun x => ⟨rfl, rfl, rfl, rfl, rfl, rfl, rfl, rfl, rfl, rfl⟩))
+        · exact d1.trans (ih s1)
+
+theorem hcToss_rel {s s' : State} {r k : Nat} {cl : Option Nat} {oe : Option Exc} (h : hcToss s r k cl = (s', oe)) :
+    ∃ m, ReadRel r k s s' m ∧ (oe = none → (cl = none → m = []) ∧ (cl.isSome = true → m.length = 2)) := by
+  unfold hcToss at h
+  cases cl with
+  | none => cases h; exact ⟨[], ReadRel.refl _ _ _, fun _ => ⟨fun _ => rfl, (by intro h; cases h)⟩⟩
+  | some v =>
+    dsimp only at h
+    generalize hsr : safeRead s r k 2 = res at h
+    obtain ⟨s1, o⟩ := res
+    obtain ⟨m, rel, hd⟩ := safeRead_rel hsr
+    cases o with
+    | exc e => cases h; exact ⟨m, rel, by intro h; cases h⟩
+    | data d =>
+      cases h
+      exact ⟨m, rel, fun _ => ⟨(by intro h; cases h), fun _ => (hd d rfl).2⟩⟩
+
+theorem hcNext_dirty (s : State) (r k : Nat) (cl : Option Nat) : Dirty r k s (hcNext s r k cl).1 := by
+  unfold hcNext
+  generalize hto : hcToss s r k cl = res
+  obtain ⟨s1, oe⟩ := res
+  obtain ⟨m0, rel0, _⟩ := hcToss_rel hto
+  have d0 := rel0.toP.dirty
+  cases oe with
+  | some e => exact d0
+  | none =>
+    dsimp only
+    have d1 := fpReadline_dirty (inboundLen s1 k + 2) s1 r k []
+    generalize fpReadline (inboundLen s1 k + 2) s1 r k [] = res at d1
+    obtain ⟨s2, o⟩ := res
+    cases o with
+    | exc e => exact d0.trans d1
+    | data line =>
+      dsimp only
+      split
+      · exact (d0.trans d1).trans (closeFp_dirty s2 r k)
+      · have d2 := hcDiscardTrailer_dirty r k (inboundLen s2 k + (match s2.resps[r]? with | some rs => rs.buf.length | none => 0) + 2) s2
+        generalize hcDiscardTrailer (inboundLen s2 k + (match s2.resps[r]? with | some rs => rs.buf.length | none => 0) + 2) s2 r k = res at d2
+        obtain ⟨s3, oe⟩ := res
+        cases oe with
+        | some e => exact (d0.trans d1).trans d2
+        | none =>
+          dsimp only
+          exact (((d0.trans d1).trans d2).trans (setParse_dirty r k s3 (fun x => { x with hcLeft := none })
+            (fun x => ⟨rfl, rfl, rfl, rfl, rfl, rfl, rfl, rfl, rfl, rfl⟩))).trans (closeFp_dirty _ r k)
+      · exact (d0.trans d1).trans (setParse_dirty r k s2 _ (fun x => ⟨rfl, rfl, rfl, rfl, rfl, rfl, rfl, rfl, rfl, rfl⟩))
+
+theorem hcGetChunkLeft_dirty (s : State) (r k : Nat) : Dirty r k s (hcGetChunkLeft s r k).1 := by
+  unfold hcGetChunkLeft
+  split
+  · exact Dirty.refl _ _ _
+  · exact hcNext_dirty _ _ _ _
+
+theorem dirty_closed_provF {A : Nat → Attempt → Prop} {s0 s1 : State} {r k : Nat} {X Z : List Cell} {rs : Resp}
+    (p : ProvF A s0 (some (r, X, Z))) (hr : s0.resps[r]? = some rs) (hk : rs.fp = some k) (d : Dirty r k s0 s1)
+    (hc : respFpClosed s1 r = true) : ProvF A s1 (some (r, X, Z)) := by
+  have uniq : ∀ (i : Nat) (ri : Resp), s0.resps[i]? = some ri → ri.fp = some k → i = r :=
+    fun i ri h1 h2 => p.fpInj i r ri rs k h1 hr h2 hk
+  exact (dirty_safe d uniq (Safe.refl s1) hc).prov p
+
+theorem closeFp_closed_of {s : State} {r i : Nat} (hc : respFpClosed s i = true) : respFpClosed (closeFp s r) i = true :=
+  (closeFp_safe s r).closed hc
+
+/-- `_get_chunk_left` at the end of a chunk: the next chunk-size line -/
+theorem hcNext_prov {A : Nat → Attempt → Prop} {s s' : State} {r k : Nat} {X Z : List Cell} {rs : Resp} {v : Option Nat}
+    (p : ProvF A s (some (r, X, Z))) (hr : s.resps[r]? = some rs) (hk : rs.fp = some k)
+    (hch : rs.chunked = true) (hnh : rs.isHead = false) (hcl : ∀ j, rs.hcLeft ≠ some (j + 1))
+    (h : hcNext s r k rs.hcLeft = (s', .left v)) :
+    ProvF A s' (some (r, X, Z)) ∧
+    (v = none → respFpClosed s' r = true) ∧
+    (∀ cl, v = some cl → ∃ (rs' : Resp) (m : List Cell) (j : Nat), ReadRelP r k s s' m ∧ s'.resps[r]? = some rs' ∧
+      rs'.hcLeft = some cl ∧ cl = j + 1) := by
+  have dall := hcNext_dirty s r k rs.hcLeft
+  rw [h] at dall
+  unfold hcNext at h
+  generalize hto : hcToss s r k rs.hcLeft = res at h
+  obtain ⟨s1, oe⟩ := res
+  obtain ⟨m0, rel0, hm0⟩ := hcToss_rel hto
+  cases oe with
+  | some e => cases h
+  | none =>
+    obtain ⟨hm0n, hm0s⟩ := hm0 rfl
+    dsimp only at h
+    generalize hfr : fpReadline (inboundLen s1 k + 2) s1 r k [] = res at h
+    obtain ⟨s2, o⟩ := res
+    obtain ⟨m1, rel1, hd1⟩ := fpReadline_rel _ _ _ _ _ _ _ hfr
+    cases o with
+    | exc e => cases h
+    | data line =>
+      have hlm : line = m1 := by simpa using hd1 line rfl
+      subst hlm
+      dsimp only at h
+      split at h
+      · cases h
+      · -- the last chunk: trailer section, `_close_conn()`
+        generalize hcDiscardTrailer _ s2 r k = res at h
+        obtain ⟨s3, oe⟩ := res
+        cases oe with
+        | some e => cases h
+        | none =>
+          cases h
+          have hc : respFpClosed (closeFp (setResp s3 r fun x => { x with hcLeft := none }) r) r = true := closeFp_closed _ r
+          exact ⟨dirty_closed_provF p hr hk dall hc, fun _ => hc, (by intro cl hcl'; cases hcl')⟩
+      · rename_i n hsz
+        cases h
+        have rel01 := rel0.trans rel1
+        obtain ⟨b, hb⟩ := rel01.rsame rs hr
+        have relP : ReadRelP r k s (setResp s2 r fun x => { x with hcLeft := some (n + 1) }) (m0 ++ line ++ []) :=
+          rel01.toP.trans (setParse_relP r k s2 _ (fun x => ⟨rfl, rfl, rfl, rfl, rfl, rfl, rfl, rfl, rfl, rfl⟩))
+        rw [List.append_nil] at relP
+        have hr' : (setResp s2 r fun x => { x with hcLeft := some (n + 1) }).resps[r]? =
+            some { rs with buf := b, hcLeft := some (n + 1) } := by
+          simp [setResp, List.getElem?_modify, hb]
+        refine ⟨read_chunk p hr hk hch hnh relP hr' ?_, (by intro hv; cases hv), ?_⟩
+        · intro a hd' Rem hc hE hm
+          have hml : line <+: Rem.drop m0.length := prefix_drop_of_append hm
+          -- where was the parser?
+          cases hcL : rs.chunkLeft with
+          | some w =>
+            exfalso
+            cases hhc : rs.hcLeft with
+            | some u =>
+              have : respPos rs = .bad := by simp [respPos, hcL, hhc]
+              rw [this, expect_chunked hc] at hE
+              obtain ⟨_, _, f⟩ := hE; exact f
+            | none =>
+              have hm0' : m0 = [] := hm0n hhc
+              subst hm0'
+              have hpos : respPos rs ≠ .size := by cases w <;> simp [respPos, hcL, hhc]
+              exact expect_no_size hc hpos hE (by simpa using hml) hsz
+          | none =>
+            cases hhc : rs.hcLeft with
+            | none =>
+              have hm0' : m0 = [] := hm0n hhc
+              subst hm0'
+              have hpos : respPos rs = .size := by simp [respPos, hcL, hhc]
+              rw [hpos] at hE
+              obtain ⟨_, g1⟩ := expect_size_line hc hE (by simpa using hml) hsz
+              simp only [respPos, hcL]
+              simpa using g1 n rfl
+            | some u =>
+              cases u with
+              | succ j => exact absurd hhc (hcl j)
+              | zero =>
+                have hpos : respPos rs = .crlf := by simp [respPos, hcL, hhc]
+                rw [hpos] at hE
+                have hl0 : m0.length = 2 := hm0s (by rw [hhc]; rfl)
+                have g0 := expect_crlf_drop (m := m0) hc hE hl0
+                obtain ⟨_, g1⟩ := expect_size_line hc g0 hml hsz
+                simp only [respPos, hcL]
+                have e : (Rem.drop m0.length).drop line.length = Rem.drop (m0 ++ line).length := by
+                  rw [List.drop_drop]; congr 1; simp
+                rw [← e]; exact g1 n rfl
+        · intro cl hcl'
+          cases hcl'
+          exact ⟨_, _, n, relP, hr', rfl, rfl⟩
+
+theorem hcGetChunkLeft_prov {A : Nat → Attempt → Prop} {s s' : State} {r k : Nat} {X Z : List Cell} {rs : Resp} {v : Option Nat}
+    (p : ProvF A s (some (r, X, Z))) (hr : s.resps[r]? = some rs) (hk : rs.fp = some k)
+    (hch : rs.chunked = true) (hnh : rs.isHead = false) (h : hcGetChunkLeft s r k = (s', .left v)) :
+    ProvF A s' (some (r, X, Z)) ∧
+    (v = none → respFpClosed s' r = true) ∧
+    (∀ cl, v = some cl → ∃ (rs' : Resp) (m : List Cell) (j : Nat), ReadRelP r k s s' m ∧ s'.resps[r]? = some rs' ∧
+      rs'.hcLeft = some cl ∧ cl = j + 1) := by
+  unfold hcGetChunkLeft at h
+  have hl : hcLeftOf s r = rs.hcLeft := by simp [hcLeftOf, hr]
+  rw [hl] at h
+  split at h
+  · rename_i n hn
+    cases h
+    exact ⟨p, (by intro hv; cases hv), fun cl hcl => by cases hcl; exact ⟨rs, [], n, ReadRelP.refl _ _ _, hr, hn, rfl⟩⟩
+  · rename_i hne
+    exact hcNext_prov p hr hk hch hnh (fun j hj => hne j hj) h
+
+theorem hcReadChunked_dirty (r k : Nat) : ∀ (fuel : Nat) (s : State) (amt : Option Nat) (acc : List Cell),
+    Dirty r k s (hcReadChunked fuel s r k amt acc).1 := by
+  intro fuel
+  induction fuel with
+  | zero => intro s amt acc; exact Dirty.refl _ _ _
+  | succ fuel ih =>
+    intro s amt acc
+    unfold hcReadChunked
+    have d0 := hcGetChunkLeft_dirty s r k
+    generalize hcGetChunkLeft s r k = res at d0
+    obtain ⟨s1, lo⟩ := res
+    cases lo with
+    | exc e => exact d0
+    | left v =>
+      cases v with
+      | none => exact d0
+      | some cl =>
+        dsimp only
+        split
+        · rename_i n _
+          have d1 := safeRead_dirty s1 r k n
+          generalize safeRead s1 r k n = res at d1
+          obtain ⟨s2, o⟩ := res
+          cases o with
+          | exc e => exact d0.trans d1
+          | data d => exact (d0.trans d1).trans (setParse_dirty r k s2 _ (fun x => ⟨rfl, rfl, rfl, rfl, rfl, rfl, rfl, rfl, rfl, rfl⟩))
+        · have d1 := safeRead_dirty s1 r k cl
+          generalize safeRead s1 r k cl = res at d1
+          obtain ⟨s2, o⟩ := res
+          cases o with
+          | exc e => exact d0.trans d1
+          | data d =>
+            exact ((d0.trans d1).trans (setParse_dirty r k s2 (fun x => { x with hcLeft := some 0 })
+              (fun x => ⟨rfl, rfl, rfl, rfl, rfl, rfl, rfl, rfl, rfl, rfl⟩))).trans (ih _ _ _)
+
+theorem hcReadChunked_prov {A : Nat → Attempt → Prop} {r k : Nat} {Z : List Cell} : ∀ (fuel : Nat) (s s' : State) (amt : Option Nat)
+    (acc X : List Cell) (out : DataOut) (rs : Resp),
+    ProvF A s (some (r, X, Z)) → s.resps[r]? = some rs → rs.fp = some k → rs.chunked = true → rs.isHead = false →
+    hcReadChunked fuel s r k amt acc = (s', out) →
+    (∀ d, out = .data d → ∃ m', d = acc ++ m' ∧ ProvF A s' (some (r, X ++ m', Z))) ∧
+    (amt = none → ∀ d, out = .data d → respFpClosed s' r = true) := by
+  intro fuel
+  induction fuel with
+  | zero =>
+    intro s s' amt acc X out rs p hr hk hch hnh h
+    simp [hcReadChunked] at h; obtain ⟨rfl, rfl⟩ := h
+    exact ⟨(by intro d hd; cases hd), by intro _ d hd; cases hd⟩
+  | succ fuel ih =>
+    intro s s' amt acc X out rs p hr hk hch hnh h
+    unfold hcReadChunked at h
+    generalize hg : hcGetChunkLeft s r k = res at h
+    obtain ⟨s1, lo⟩ := res
+    cases lo with
+    | exc e => cases h; exact ⟨(by intro d hd; cases hd), by intro _ d hd; cases hd⟩
+    | left v =>
+      obtain ⟨p1, hnone, hsome⟩ := hcGetChunkLeft_prov p hr hk hch hnh hg
+      cases v with
+      | none =>
+        cases h
+        refine ⟨?_, fun _ _ _ => hnone rfl⟩
+        intro d hd; cases hd
+        exact ⟨[], by simp, by simpa using p1⟩
+      | some cl =>
+        obtain ⟨rs1, m1, j, rel1, hr1, hl1, hj⟩ := hsome cl rfl
+        subst hj
+        obtain ⟨rx, hrx, a1, a2, a3, a4, a5, a6, a7, _, _⟩ := rel1.rsame rs hr
+        rw [hr1] at hrx; cases hrx
+        have hk1 : rs1.fp = some k := by rw [a4]; exact hk
+        have hch1 : rs1.chunked = true := by rw [a6]; exact hch
+        have hnh1 : rs1.isHead = false := by rw [a3]; exact hnh
+        -- the parser stands inside a chunk with `j + 1` bytes left
+        have hposE : ∀ a hd Rem, hd.chunked = true → Expect rs1.rid a hd (respPos rs1) X Rem →
+            Expect rs1.rid a hd (.data (j + 1)) X Rem ∧ rs1.chunkLeft = none := by
+          intro a hd Rem hc hE
+          cases hcL : rs1.chunkLeft with
+          | some w =>
+            exfalso
+            have : respPos rs1 = .bad := by cases w <;> simp [respPos, hcL, hl1]
+            rw [this, expect_chunked hc] at hE
+            obtain ⟨_, _, f⟩ := hE; exact f
+          | none =>
+            have : respPos rs1 = .data (j + 1) := by simp [respPos, hcL, hl1]
+            rw [this] at hE; exact ⟨hE, rfl⟩
+        dsimp only at h
+        split at h
+        · rename_i n hshort
+          have hn : n ≤ j + 1 := by
+            cases amt with
+            | none => cases hshort
+            | some n' =>
+              dsimp only at hshort
+              split at hshort
+              · cases hshort; assumption
+              · cases hshort
+          generalize hsr : safeRead s1 r k n = res at h
+          obtain ⟨s2, o⟩ := res
+          obtain ⟨m, rel, hd⟩ := safeRead_rel hsr
+          cases o with
+          | exc e => cases h; exact ⟨(by intro d hd; cases hd), by intro _ d hd; cases hd⟩
+          | data d0 =>
+            obtain ⟨hdm, hlen⟩ := hd d0 rfl
+            subst hdm
+            cases h
+            have hamt : amt ≠ none := by
+              intro e; rw [e] at hshort; cases hshort
+            refine ⟨?_, fun e => absurd e hamt⟩
+            intro d hd'; cases hd'
+            refine ⟨d0, rfl, ?_⟩
+            obtain ⟨b, hb⟩ := rel.rsame rs1 hr1
+            have relP : ReadRelP r k s1 (setResp s2 r fun x => { x with hcLeft := some (j + 1 - n) }) (d0 ++ []) :=
+              rel.toP.trans (setParse_relP r k s2 _ (fun x => ⟨rfl, rfl, rfl, rfl, rfl, rfl, rfl, rfl, rfl, rfl⟩))
+            rw [List.append_nil] at relP
+            have hr' : (setResp s2 r fun x => { x with hcLeft := some (j + 1 - n) }).resps[r]? =
+                some { rs1 with buf := b, hcLeft := some (j + 1 - n) } := by
+              simp [setResp, List.getElem?_modify, hb]
+            refine read_chunk p1 hr1 hk1 hch1 hnh1 relP hr' ?_
+            intro a hd' Rem hc hE hm
+            obtain ⟨hE', hcL⟩ := hposE a hd' Rem hc hE
+            obtain ⟨g1, g2⟩ := expect_data_take hc hE' hm hlen hn
+            rw [hlen]
+            rcases Nat.lt_or_ge n (j + 1) with hlt | hge
+            · obtain ⟨i, hi⟩ : ∃ i, j + 1 - n = i + 1 := ⟨j - n, by omega⟩
+              have := g1 hlt
+              simp only [respPos, hcL, hi]
+              rw [hi] at this; exact this
+            · have hEq : n = j + 1 := by omega
+              have := g2 hEq
+              have h0 : j + 1 - n = 0 := by omega
+              simp only [respPos, hcL, h0]
+              exact this
+        · generalize hsr : safeRead s1 r k (j + 1) = res at h
+          obtain ⟨s2, o⟩ := res
+          obtain ⟨m, rel, hd⟩ := safeRead_rel hsr
+          cases o with
+          | exc e => cases h; exact ⟨(by intro d hd; cases hd), by intro _ d hd; cases hd⟩
+          | data d0 =>
+            obtain ⟨hdm, hlen⟩ := hd d0 rfl
+            subst hdm
+            dsimp only at h
+            obtain ⟨b, hb⟩ := rel.rsame rs1 hr1
+            have relP : ReadRelP r k s1 (setResp s2 r fun x => { x with hcLeft := some 0 }) (d0 ++ []) :=
+              rel.toP.trans (setParse_relP r k s2 _ (fun x => ⟨rfl, rfl, rfl, rfl, rfl, rfl, rfl, rfl, rfl, rfl⟩))
+            rw [List.append_nil] at relP
+            have hr' : (setResp s2 r fun x => { x with hcLeft := some 0 }).resps[r]? =
+                some { rs1 with buf := b, hcLeft := some 0 } := by
+              simp [setResp, List.getElem?_modify, hb]
+            have p2 : ProvF A (setResp s2 r fun x => { x with hcLeft := some 0 }) (some (r, X ++ d0, Z)) := by
+              refine read_chunk p1 hr1 hk1 hch1 hnh1 relP hr' ?_
+              intro a hd' Rem hc hE hm
+              obtain ⟨hE', hcL⟩ := hposE a hd' Rem hc hE
+              obtain ⟨_, g2⟩ := expect_data_take hc hE' hm hlen (Nat.le_refl _)
+              rw [hlen]
+              simp only [respPos, hcL]
+              exact g2 rfl
+            obtain ⟨i1, i2⟩ := ih _ s' _ _ (X ++ d0) out _ p2 hr' hk1 hch1 hnh1 h
+            refine ⟨?_, ?_⟩
+            · intro d hd'
+              obtain ⟨m'', e1, e2⟩ := i1 d hd'
+              exact ⟨d0 ++ m'', by rw [e1]; simp, by simpa using e2⟩
+            · intro hnone d hd'
+              exact i2 (by rw [hnone]; rfl) d hd'
+
 /-- what the three outcomes of a read mean for the focus -/
 def ReadPost (A : Nat → Attempt → Prop) (r : Nat) (X : List Cell) (s' : State) (out : DataOut) : Prop :=
   (∀ d, out = .data d → ProvF A s' (some (r, X ++ d, X ++ d))) ∧
-  (∀ e, out = .exc e → ∃ X' Z', ProvF A s' (some (r, X', Z')))
+  (∀ e, out = .exc e → ExcPost A r s')
 
 theorem httpRead_prov {A : Nat → Attempt → Prop} {s s' : State} {r : Nat} {X : List Cell} {amt : Option Nat} {out : DataOut}
     (p : ProvF A s (some (r, X, X))) (h : httpRead s r amt = (s', out)) :
@@ -1028,6 +2418,20 @@ theorem httpRead_prov {A : Nat → Attempt → Prop} {s s' : State} {r : Nat} {X
       · simp at h; obtain ⟨rfl, rfl⟩ := h
         exact triv _ ((closeFp_safe s r).prov p) (closeFp_closed s r)
       · rename_i hhead
+        split at h
+        · -- `Transfer-Encoding: chunked`: `_read_chunked`
+          rename_i hch
+          have dd := hcReadChunked_dirty r k (inboundLen s k + rs.buf.length + 2) s amt []
+          rw [h] at dd
+          obtain ⟨q1, q2⟩ := hcReadChunked_prov _ s s' amt [] X out rs p hrs hk hch (by simpa using hhead) h
+          refine ⟨⟨?_, fun _ _ => excPost_of_dirty p hrs hk dd⟩, q2⟩
+          intro d hd
+          obtain ⟨m', e1, e2⟩ := q1 d hd
+          simp at e1; subst e1
+          obtain ⟨rs', h1, _, _, a3, _, _, a6, _, _, _⟩ := dd.rsame rs hrs
+          exact chunked_refocus_z _ e2 h1 (by rw [a6]; exact hch) (by rw [a3]; simpa using hhead)
+        rename_i hch
+        have hch : rs.chunked = false := by simpa using hch
         simp only at h
         generalize hfuel : inboundLen s k + 2 = fuel at h
         cases amt with
@@ -1039,12 +2443,12 @@ theorem httpRead_prov {A : Nat → Attempt → Prop} {s s' : State} {r : Nat} {X
             generalize hfr : fpRead fuel s r k n [] = res at h
             obtain ⟨s1, o⟩ := res
             obtain ⟨m, rel, hlen, hd⟩ := fpRead_rel _ _ _ _ _ _ _ _ hfr
-            have p1 := read_prov p hrs hk rel (fun l hl => by rw [hlen0] at hl; cases hl)
+            have p1 := read_prov p hrs hk rel hch (fun l hl => by rw [hlen0] at hl; cases hl)
             obtain ⟨rs1, hrs1, hl1, hfp1⟩ := rel.resp_at hrs
             cases o with
             | exc e =>
               simp at h; obtain ⟨rfl, rfl⟩ := h
-              exact ⟨⟨(by intro d hd; cases hd), fun _ _ => ⟨_, _, p1⟩⟩, by intro h; cases h⟩
+              exact ⟨⟨(by intro d hd; cases hd), fun _ _ => excPost_of_provF p1⟩, by intro h; cases h⟩
             | data d =>
               have hdm : d = m := by simpa using hd d rfl
               subst hdm
@@ -1065,12 +2469,12 @@ theorem httpRead_prov {A : Nat → Attempt → Prop} {s s' : State} {r : Nat} {X
             generalize hfr : fpRead fuel s r k n' [] = res at h
             obtain ⟨s1, o⟩ := res
             obtain ⟨m, rel, hlen, hd⟩ := fpRead_rel _ _ _ _ _ _ _ _ hfr
-            have p1 := read_prov p hrs hk rel (fun l' hl => by rw [hlen0] at hl; cases hl; omega)
+            have p1 := read_prov p hrs hk rel hch (fun l' hl => by rw [hlen0] at hl; cases hl; omega)
             obtain ⟨rs1, hrs1, hl1, hfp1⟩ := rel.resp_at hrs
             cases o with
             | exc e =>
               simp at h; obtain ⟨rfl, rfl⟩ := h
-              exact ⟨⟨(by intro d hd; cases hd), fun _ _ => ⟨_, _, p1⟩⟩, by intro h; cases h⟩
+              exact ⟨⟨(by intro d hd; cases hd), fun _ _ => excPost_of_provF p1⟩, by intro h; cases h⟩
             | data d =>
               have hdm : d = m := by simpa using hd d rfl
               subst hdm
@@ -1098,11 +2502,11 @@ theorem httpRead_prov {A : Nat → Attempt → Prop} {s s' : State} {r : Nat} {X
             generalize hfr : fpReadAll fuel s r k [] = res at h
             obtain ⟨s1, o⟩ := res
             obtain ⟨m, rel, hd⟩ := fpReadAll_rel _ _ _ _ _ _ _ hfr
-            have p1 := read_prov p hrs hk rel (fun l hl => by rw [hlen0] at hl; cases hl)
+            have p1 := read_prov p hrs hk rel hch (fun l hl => by rw [hlen0] at hl; cases hl)
             cases o with
             | exc e =>
               simp at h; obtain ⟨rfl, rfl⟩ := h
-              exact ⟨⟨(by intro d hd; cases hd), fun _ _ => ⟨_, _, p1⟩⟩, by intro _ d hd; cases hd⟩
+              exact ⟨⟨(by intro d hd; cases hd), fun _ _ => excPost_of_provF p1⟩, by intro _ d hd; cases hd⟩
             | data d =>
               have hdm : d = m := by simpa using hd d rfl
               subst hdm
@@ -1115,18 +2519,18 @@ theorem httpRead_prov {A : Nat → Attempt → Prop} {s s' : State} {r : Nat} {X
             generalize hfr : fpRead fuel s r k l [] = res at h
             obtain ⟨s1, o⟩ := res
             obtain ⟨m, rel, hlen, hd⟩ := fpRead_rel _ _ _ _ _ _ _ _ hfr
-            have p1 := read_prov p hrs hk rel (fun l' hl => by rw [hlen0] at hl; cases hl; omega)
+            have p1 := read_prov p hrs hk rel hch (fun l' hl => by rw [hlen0] at hl; cases hl; omega)
             cases o with
             | exc e =>
               simp at h; obtain ⟨rfl, rfl⟩ := h
-              exact ⟨⟨(by intro d hd; cases hd), fun _ _ => ⟨_, _, p1⟩⟩, by intro _ d hd; cases hd⟩
+              exact ⟨⟨(by intro d hd; cases hd), fun _ _ => excPost_of_provF p1⟩, by intro _ d hd; cases hd⟩
             | data d =>
               have hdm : d = m := by simpa using hd d rfl
               subst hdm
               simp only at h
               split at h
               · simp at h; obtain ⟨rfl, rfl⟩ := h
-                exact ⟨⟨(by intro d hd; cases hd), fun _ _ => ⟨_, _, (closeFp_safe s1 r).prov p1⟩⟩, by intro _ d hd; cases hd⟩
+                exact ⟨⟨(by intro d hd; cases hd), fun _ _ => excPost_of_provF ((closeFp_safe s1 r).prov p1)⟩, by intro _ d hd; cases hd⟩
               · simp at h; obtain ⟨rfl, rfl⟩ := h
                 refine ⟨⟨?_, by intro e he; cases he⟩, fun _ _ _ => closeFp_closed _ r⟩
                 intro d' hd'; cases hd'
@@ -1206,8 +2610,7 @@ theorem rawRead_prov {A : Nat → Attempt → Prop} {s s' : State} {r : Nat} {X 
   have post2 : ReadPost A r X s2 o2 ∧ (amt = none → ∀ d, o2 = .data d → respFpClosed s2 r = true) := by
     have keep : ∀ t : State, Safe s1 t → ReadPost A r X t o1 := by
       intro t st
-      exact ⟨fun d hd => st.prov (post1.1 d hd), fun e he => by
-        obtain ⟨X', Z', q⟩ := post1.2 e he; exact ⟨X', Z', st.prov q⟩⟩
+      exact ⟨fun d hd => st.prov (post1.1 d hd), fun e he => (post1.2 e he).safe st⟩
     unfold rawMid at hmid
     split at hmid
     · rename_i d n
@@ -1215,7 +2618,7 @@ theorem rawRead_prov {A : Nat → Attempt → Prop} {s s' : State} {r : Nat} {X 
       · dsimp only at hmid
         have st := closeFp_safe s1 r
         have hexc : ReadPost A r X (closeFp s1 r) (.exc (exc Gen.cU3IncompleteRead)) := by
-          exact ⟨(by intro d' hd'; cases hd'), fun _ _ => ⟨_, _, st.prov (post1.1 d rfl)⟩⟩
+          exact ⟨(by intro d' hd'; cases hd'), fun _ _ => excPost_of_provF (st.prov (post1.1 d rfl))⟩
         split at hmid
         · split at hmid
           · split at hmid
@@ -1230,12 +2633,12 @@ theorem rawRead_prov {A : Nat → Attempt → Prop} {s s' : State} {r : Nat} {X 
   cases o2 with
   | exc e =>
     dsimp only at h
-    obtain ⟨X', Z', q⟩ := post2.2 e rfl
+    have q := post2.2 e rfl
     have st := errorCatcherExit_safe s2 r false
     have hc := errorCatcherExit_false_closed s2 r
     generalize errorCatcherExit s2 r false = res at h st hc
     obtain ⟨s3, oe⟩ := res
-    have pf : Prov A s3 := closed_unfocus (st.prov q) hc
+    have pf : Prov A s3 := q s3 st hc
     cases oe <;> (simp at h; obtain ⟨rfl, rfl⟩ := h
                   exact ⟨(by intro d hd; cases hd), fun _ _ => pf, by intro _ d hd; cases hd⟩)
   | data d =>
@@ -1255,6 +2658,32 @@ theorem rawRead_prov {A : Nat → Attempt → Prop} {s s' : State} {r : Nat} {X 
       refine ⟨?_, (by intro e he; cases he), ?_⟩
       · intro d' hd'; cases hd'; exact st.prov q
       · intro ha d' hd'; exact st.closed (cl2 ha d rfl)
+
+/-- `b"".join(response.read_chunked(amt))` -/
+theorem readChunked_prov {A : Nat → Attempt → Prop} {s : State} {r amt : Nat} (p : Prov A s) (hc : respChunked s r = true) :
+    Prov A (readChunked s r amt).1 := by
+  unfold readChunked
+  generalize hb : readChunkedBody s r amt = res
+  obtain ⟨s1, o⟩ := res
+  obtain ⟨q1, q2⟩ := readChunkedBody_prov p hc hb
+  dsimp only
+  unfold catcherExit
+  cases o with
+  | exc e =>
+    dsimp only
+    have st := errorCatcherExit_safe s1 r false
+    have hcl := errorCatcherExit_false_closed s1 r
+    generalize errorCatcherExit s1 r false = res at st hcl
+    obtain ⟨s2, oe⟩ := res
+    have := q2 e rfl s2 st hcl
+    cases oe <;> exact this
+  | data d =>
+    dsimp only
+    have st := errorCatcherExit_safe s1 r true
+    generalize errorCatcherExit s1 r true = res at st
+    obtain ⟨s2, oe⟩ := res
+    have := st.prov (q1 d rfl)
+    cases oe <;> exact this
 
 /-! ### `delivered` only changes in `deliver` -/
 
@@ -1307,6 +2736,23 @@ theorem setResp_ds (s : State) (r : Nat) (g : Resp → Resp) (hg : ∀ x, (g x).
     · simp [hri, hg]
     · simp [hri]
 
+theorem Dirty.ds {r k : Nat} {s s' : State} (h : Dirty r k s s') : DS s s' := by
+  intro i
+  unfold delivOf
+  by_cases hir : i = r
+  · subst hir
+    cases h0 : s.resps[i]? with
+    | none =>
+      have : s'.resps[i]? = none := by
+        rcases Nat.lt_or_ge i s.resps.length with h' | h'
+        · rw [List.getElem?_eq_getElem h'] at h0; cases h0
+        · exact List.getElem?_eq_none (by rw [h.rlen]; exact h')
+      rw [this]
+    | some rs =>
+      obtain ⟨rs', h1, _, a2, _⟩ := h.rsame rs h0
+      rw [h1]; exact a2
+  · rw [h.rother i hir]
+
 theorem fpRead_ds (fuel : Nat) (s : State) (r k n : Nat) (acc : List Cell) : DS s (fpRead fuel s r k n acc).1 := by
   obtain ⟨m, rel, _⟩ := fpRead_rel fuel s r k n acc _ _ rfl
   exact rel.ds
@@ -1327,7 +2773,9 @@ theorem httpRead_ds (s : State) (r : Nat) (amt : Option Nat) : DS s (httpRead s 
     · rename_i k hk
       split
       · exact closeFp_ds _ _
-      · dsimp only
+      · split
+        · exact (hcReadChunked_dirty r k _ s amt []).ds
+        dsimp only
         generalize inboundLen s k + 2 = fuel
         have setl : ∀ (t : State) (l : Nat), DS t (setResp t r fun x => { x with length := some l }) :=
           fun t l => setResp_ds t r _ (fun _ => rfl)
@@ -1592,10 +3040,17 @@ theorem disposeResp_prov {A : Nat → Attempt → Prop} {s : State} {r : Nat} (h
   | stream k =>
     unfold disposeResp
     dsimp only
-    generalize hrr : respStream _ s r k [] = res
-    obtain ⟨s1, o⟩ := res
-    have := respStream_prov _ s s1 [] o p hrr
-    cases o <;> exact this
+    by_cases hc : respChunked s r = true
+    · rw [if_pos hc]
+      have := readChunked_prov (r := r) (amt := k) p hc
+      generalize readChunked s r k = res at this ⊢
+      obtain ⟨s1, o⟩ := res
+      cases o <;> exact this
+    · rw [if_neg hc]
+      generalize hrr : respStream _ s r k [] = res
+      obtain ⟨s1, o⟩ := res
+      have := respStream_prov _ s s1 [] o p hrr
+      cases o <;> exact this
 
 theorem dispose_prov {A : Nat → Attempt → Prop} {s : State} (rid : Nat) (how : How) (p : Prov A s) :
     Prov A (dispose s rid how).1 := by
@@ -1642,7 +3097,7 @@ theorem findHead_nil_prefix (B : List Cell) (i : Nat) (hp : B <+: []) : findHead
 
 theorem readHead_rel : ∀ (fuel : Nat) (s : State) (r k : Nat) (s' : State) (out : HeadOut),
     readHead fuel s r k = (s', out) →
-    ∃ m, ReadRel r k s s' m ∧ ∀ h, out = .ok h → ∃ B n, findHead B 0 = some (n, h) ∧ m = B.take n ∧
+    ∃ m, ReadRel r k s s' m ∧ ∀ h, out = .ok h → ∃ B n, scanHead B = some (n, h) ∧ h.garbage = false ∧ m = B.take n ∧
       ∀ (rs : Resp) (sk : Sock), s.resps[r]? = some rs → s.socks[k]? = some sk → B <+: rs.buf ++ sk.inbound := by
   intro fuel
   induction fuel with
@@ -1664,10 +3119,11 @@ theorem readHead_rel : ∀ (fuel : Nat) (s : State) (r k : Nat) (s' : State) (ou
         split at h
         · simp at h; obtain ⟨rfl, rfl⟩ := h
           exact ⟨_, rel, by intro h hh; cases hh⟩
-        · simp at h; obtain ⟨rfl, rfl⟩ := h
+        · rename_i hgarb
+          simp at h; obtain ⟨rfl, rfl⟩ := h
           refine ⟨_, rel, ?_⟩
           intro h' hh; cases hh
-          refine ⟨rs.buf, n, hfind, rfl, ?_⟩
+          refine ⟨rs.buf, n, hfind, by simpa using hgarb, rfl, ?_⟩
           intro rs' sk h1 _; rw [hrs] at h1; cases h1; exact List.prefix_append _ _
       · have r1 := recvInto_rel s r k (bufSize - rs.buf.length)
         generalize hrv : recvInto s r k (bufSize - rs.buf.length) = res at h r1
@@ -1678,8 +3134,8 @@ theorem readHead_rel : ∀ (fuel : Nat) (s : State) (r k : Nat) (s' : State) (ou
           obtain ⟨m, rm, hm⟩ := ih s1 r k s' out h
           refine ⟨m, by simpa using r1.trans rm, ?_⟩
           intro h' hh
-          obtain ⟨B, n, f1, f2, f3⟩ := hm h' hh
-          refine ⟨B, n, f1, f2, ?_⟩
+          obtain ⟨B, n, f1, fg, f2, f3⟩ := hm h' hh
+          refine ⟨B, n, f1, fg, f2, ?_⟩
           intro rs' sk h1 h2
           obtain ⟨rs1, sk1, e1, e2, e3⟩ := r1.stream rs' sk h1 h2
           have := f3 rs1 sk1 e1 e2
@@ -1739,14 +3195,19 @@ structure HP (k c : Nat) (s0 s : State) : Prop where
   slen : s.socks.length = s0.socks.length
   sother : ∀ j, j ≠ k → s.socks[j]? = s0.socks[j]?
   cother : ∀ c', c' ≠ c → s.conns[c']? = s0.conns[c']?
+  hsame : ∀ sk : Sock, s0.socks[k]? = some sk → ∃ sk' : Sock, s.socks[k]? = some sk' ∧ sk'.held = sk.held
 
 theorem HP.new (k c : Nat) (s0 : State) (x : Resp) : HP k c s0 { s0 with resps := s0.resps ++ [x] } :=
-  ⟨by simp, fun i hi => List.getElem?_append_left hi, rfl, fun _ _ => rfl, fun _ _ => rfl⟩
+  ⟨by simp, fun i hi => List.getElem?_append_left hi, rfl, fun _ _ => rfl, fun _ _ => rfl, fun sk h => ⟨sk, h, rfl⟩⟩
 
 theorem HP.read {k c : Nat} {s0 s s' : State} {m : List Cell} (h : HP k c s0 s) (rel : ReadRel s0.resps.length k s s' m) :
     HP k c s0 s' :=
   ⟨by rw [rel.rlen, h.rlen], fun i hi => by rw [rel.rother i (by omega), h.rold i hi], by rw [rel.slen, h.slen],
-    fun j hj => by rw [rel.sother j hj, h.sother j hj], fun c' hc' => by rw [rel.conns]; exact h.cother c' hc'⟩
+    fun j hj => by rw [rel.sother j hj, h.sother j hj], fun c' hc' => by rw [rel.conns]; exact h.cother c' hc',
+    fun sk hsk => by
+      obtain ⟨sk1, g1, g2⟩ := h.hsame sk hsk
+      obtain ⟨sk2, g3, g4⟩ := rel.hsame sk1 g1
+      exact ⟨sk2, g3, by rw [g4, g2]⟩⟩
 
 theorem HP.setResp {k c : Nat} {s0 s : State} (h : HP k c s0 s) (g : Resp → Resp) :
     HP k c s0 (setResp s s0.resps.length g) :=
@@ -1754,22 +3215,23 @@ theorem HP.setResp {k c : Nat} {s0 s : State} (h : HP k c s0 s) (g : Resp → Re
     fun i hi => by
       have : s0.resps.length ≠ i := by omega
       simp [U3.Pool.setResp, List.getElem?_modify, this, h.rold i hi],
-    h.slen, h.sother, h.cother⟩
+    h.slen, h.sother, h.cother, h.hsame⟩
 
 theorem HP.setConn {k c : Nat} {s0 s : State} (h : HP k c s0 s) (g : Conn → Conn) : HP k c s0 (setConn s c g) :=
   ⟨h.rlen, h.rold, h.slen, h.sother, fun c' hc' => by
-    simp [U3.Pool.setConn, List.getElem?_modify, Ne.symm hc', h.cother c' hc']⟩
+    simp [U3.Pool.setConn, List.getElem?_modify, Ne.symm hc', h.cother c' hc'], h.hsame⟩
 
 theorem HP.closeFp {k c : Nat} {s0 s : State} (h : HP k c s0 s) : HP k c s0 (closeFp s s0.resps.length) := by
   obtain ⟨e1, e2, e3, e4, _⟩ := closeFp_fields s s0.resps.length
   exact ⟨by rw [e3, h.rlen], fun i hi => by rw [e4 i (by omega), h.rold i hi], by rw [e2, h.slen],
-    fun j hj => by rw [e2]; exact h.sother j hj, fun c' hc' => by rw [e1]; exact h.cother c' hc'⟩
+    fun j hj => by rw [e2]; exact h.sother j hj, fun c' hc' => by rw [e1]; exact h.cother c' hc',
+    by rw [e2]; exact h.hsame⟩
 
 theorem HP.connClose {k c : Nat} {s0 s : State} (h : HP k c s0 s) (cn : Conn) (hc : s.conns[c]? = some cn)
     (hp : cn.pending = none) : HP k c s0 (connClose s c) := by
   obtain ⟨e1, e2, e3⟩ := connClose_fields_nopending s c cn hc hp
   exact ⟨by rw [e1, h.rlen], fun i hi => by rw [e1, h.rold i hi], by rw [e2, h.slen], fun j hj => by rw [e2]; exact h.sother j hj,
-    fun c' hc' => by rw [e3]; simp [List.getElem?_modify, Ne.symm hc', h.cother c' hc']⟩
+    fun c' hc' => by rw [e3]; simp [List.getElem?_modify, Ne.symm hc', h.cother c' hc'], by rw [e2]; exact h.hsame⟩
 
 theorem noReader_of_nopending {A : Nat → Attempt → Prop} {f : Focus} {s : State} {c k : Nat} {cn : Conn}
     (p : ProvF A s f) (hc : s.conns[c]? = some cn) (hk : cn.sock = some k) (hp : cn.pending = none) : NoReader s k := by
@@ -1790,13 +3252,27 @@ theorem hp_safe {s0 s : State} {k c : Nat} (h : HP k c s0 s) (nr : NoReader s0 k
       · rw [List.getElem?_eq_none h'] at hi; cases hi
     rw [h.rlen] at this
     rw [← h.rold i (by omega)]; exact hi
-  refine ⟨by rw [h.slen]; exact Nat.le_refl _, by rw [h.rlen]; omega, ?_, ?_, ?_, ?_⟩
+  refine ⟨by rw [h.slen]; exact Nat.le_refl _, by rw [h.rlen]; omega, ?_, ?_, ?_, ?_, ?_⟩
+  rotate_right
+  · intro k' sk' h1
+    left
+    by_cases hkk : k' = k
+    · subst hkk
+      have hk0 : k' < s0.socks.length := by
+        rw [← h.slen]
+        rcases Nat.lt_or_ge k' s.socks.length with h' | h'
+        · exact h'
+        · rw [List.getElem?_eq_none h'] at h1; cases h1
+      obtain ⟨sk2, q1, q2⟩ := h.hsame _ (List.getElem?_eq_getElem hk0)
+      rw [h1] at q1; cases q1
+      exact ⟨_, List.getElem?_eq_getElem hk0, q2⟩
+    · exact ⟨sk', by rw [← h.sother k' hkk]; exact h1, rfl⟩
   · intro i rs rs' h1 h2
     have hi : i < s0.resps.length := by
       rcases Nat.lt_or_ge i s0.resps.length with h' | h'
       · exact h'
       · rw [List.getElem?_eq_none h'] at h1; cases h1
-    rw [h.rold i hi, h1] at h2; cases h2; exact ⟨rfl, rfl⟩
+    rw [h.rold i hi, h1] at h2; cases h2; exact ⟨rfl, rfl, rfl⟩
   · intro i rs' k' sk h1 h2 h3
     by_cases hi : i = s0.resps.length
     · subst hi; rw [(hr rs' h1).1] at h2; cases h2
@@ -1807,7 +3283,7 @@ theorem hp_safe {s0 s : State} {k c : Nat} (h : HP k c s0 s) (nr : NoReader s0 k
     by_cases hi : i = s0.resps.length
     · subst hi
       exact Or.inr ⟨List.getElem?_eq_none (Nat.le_refl _), (hr rs' h1).1, (hr rs' h1).2⟩
-    · exact Or.inl ⟨rs', hold i rs' h1 hi, rfl, rfl, rfl, Or.inr ⟨rfl, rfl, rfl⟩⟩
+    · exact Or.inl ⟨rs', hold i rs' h1 hi, rfl, rfl, rfl, Or.inr ⟨rfl, rfl, rfl, rfl⟩⟩
   · intro c' cn' k' h1 h2
     left
     by_cases hcc : c' = c
@@ -1824,7 +3300,8 @@ theorem open_new {A : Nat → Attempt → Prop} {s0 s : State} {c k : Nat} {cn :
     (hp' : HP k c s0 s) (hrn : s.resps[s0.resps.length]? = some rn) (hsk : s.socks[k]? = some sk')
     (hcn : ∀ cn' : Conn, s.conns[c]? = some cn' → cn'.sock = none ∨ (cn'.sock = some k ∧ cn'.pending = some s0.resps.length))
     (hatt : A rn.rid a) (hhd : a.head = some h) (hstat : rn.status = h.status) (hfp : rn.fp = some k) (hdel : rn.delivered = [])
-    (hlen : rn.length = initLength h rn.isHead) (hstream : rn.buf ++ sk'.inbound = bodyCells rn.rid a) : Prov A s := by
+    (hlen : rn.length = initLength h rn.isHead) (hstream : rn.buf ++ sk'.inbound <+: postCells rn.rid a h)
+    (hch : rn.chunked = h.chunked) (hcl : rn.chunkLeft = none) (hhl : rn.hcLeft = none) : Prov A s := by
   have nr := noReader_of_nopending p hc hk hp
   have hkb : k < s0.socks.length := p.sockB c cn k hc hk
   have hold : ∀ (i : Nat) (rs' : Resp), s.resps[i]? = some rs' → i ≠ s0.resps.length → s0.resps[i]? = some rs' := by
@@ -1844,7 +3321,15 @@ theorem open_new {A : Nat → Attempt → Prop} {s0 s : State} {c k : Nat} {cn :
       · rw [e] at h2; cases h2
       · rw [e1] at h2; cases h2; exact Or.inl ⟨rfl, rfl, e2⟩
     · rw [hp'.cother c' hcc] at h1; exact Or.inr ⟨hcc, h1⟩
-  refine ⟨?_, ?_, ?_, ?_, ?_, ?_, by intro _ _ _ h; cases h⟩
+  refine ⟨?_, ?_, ?_, ?_, ?_, ?_, (by intro _ _ _ h; cases h), ?_⟩
+  rotate_right
+  · intro k' sk2 h1
+    by_cases hkk : k' = k
+    · subst hkk
+      obtain ⟨sk3, q1, q2⟩ := hp'.hsame _ (List.getElem?_eq_getElem hkb)
+      rw [h1] at q1; cases q1
+      rw [q2]; exact p.heldB k' _ (List.getElem?_eq_getElem hkb)
+    · rw [hp'.sother k' hkk] at h1; exact p.heldB k' sk2 h1
   · intro c' cn' k' h1 h2
     rw [hp'.slen]
     rcases holdc c' cn' k' h1 h2 with ⟨_, rfl, _⟩ | ⟨_, h0⟩
@@ -1888,24 +3373,25 @@ theorem open_new {A : Nat → Attempt → Prop} {s0 s : State} {c k : Nat} {cn :
     by_cases hi : i = s0.resps.length
     · subst hi; rw [hrn] at h1; cases h1
       right
-      refine ⟨a, h, ⟨hatt, hhd, hstat, by rw [hdel]; exact List.nil_prefix, by rw [hdel]; intro n _; simp,
+      refine ⟨a, h, ⟨hatt, hhd, hstat, hch, by rw [hdel]; exact List.nil_prefix, by rw [hdel]; intro n _; simp,
         by rw [hdel]; exact List.nil_prefix, by rw [hdel]; intro n _; simp, ?_⟩⟩
       intro k' hk'
       rw [hfp] at hk'; cases hk'
-      refine ⟨sk', hsk, by rw [hdel]; simpa using hstream, ?_⟩
+      have hpos : respPos rn = .size := by simp [respPos, hcl, hhl]
+      refine ⟨sk', postCells rn.rid a h, hsk, by rw [hdel, hpos]; exact expect_init _ _ _, hstream, ?_⟩
       intro n hn
-      exact ⟨n, by rw [hlen, hn], by rw [hdel]; simp⟩
+      exact ⟨n, by rw [hlen, lenBound_some hn], by rw [hdel]; simp⟩
     · have h0 := hold i rs' h1 hi
       have := p.resp i rs' h0
       simp only [Focus.x, Focus.z] at this
       rcases this with q | ⟨a', h', fr⟩
       · exact Or.inl q
       · right
-        refine ⟨a', h', ⟨fr.att, fr.head, fr.st, fr.dpre, fr.dlen, fr.xpre, fr.xlen, ?_⟩⟩
+        refine ⟨a', h', ⟨fr.att, fr.head, fr.st, fr.ch, fr.dpre, fr.dlen, fr.xpre, fr.xlen, ?_⟩⟩
         intro k' hk'
-        obtain ⟨sk, e1, e2⟩ := fr.opn k' hk'
+        obtain ⟨sk, Rem, e1, e2⟩ := fr.opn k' hk'
         have hkk : k' ≠ k := by intro e; subst e; exact nr i rs' h0 hk'
-        exact ⟨sk, by rw [hp'.sother k' hkk]; exact e1, e2⟩
+        exact ⟨sk, Rem, by rw [hp'.sother k' hkk]; exact e1, e2⟩
 
 theorem forget_fields (s : State) (c : Nat) :
     (forgetClosedPending s c).resps = s.resps ∧ (forgetClosedPending s c).socks = s.socks ∧
@@ -1933,10 +3419,59 @@ theorem forget_fields (s : State) (c : Nat) :
           · intro h; rw [hcn] at h; cases h
         · exact ⟨rfl, rfl, fun _ _ => rfl, same, nn⟩
 
+theorem scanHead_server {rid : Nat} {a : Attempt} {H B : List Cell} {n : Nat} {hd : Head} (hH : NoHd H)
+    (hB : B <+: H ++ serverNow rid a) (hs : scanHead B = some (n, hd)) (hg : hd.garbage = false) :
+    H = [] ∧ a.head = some hd ∧ n = a.headLen - 1 + 1 ∧ headCells rid a.headLen hd <+: B := by
+  cases B with
+  | nil => simp [scanHead, startsGarbage, findHead] at hs
+  | cons c B' =>
+    cases H with
+    | cons c' H' =>
+      exfalso
+      simp only [List.cons_append, List.cons_prefix_cons] at hB
+      obtain ⟨rfl, _⟩ := hB
+      have hc : startsGarbage (c :: B') = true := by
+        cases c with
+        | hd t fin => exact absurd rfl (hH _ (List.mem_cons_self ..) t fin)
+        | body t v => rfl
+        | fr t k => rfl
+      unfold scanHead at hs
+      rw [if_pos hc] at hs
+      cases he : eolIdx (c :: B') 0 with
+      | none => simp [he] at hs
+      | some i =>
+        simp [he] at hs
+        obtain ⟨_, rfl⟩ := hs
+        cases hg
+    | nil =>
+      rw [List.nil_append] at hB
+      cases hh : a.head with
+      | none => rw [serverNow_none hh] at hB; cases List.prefix_nil.mp hB
+      | some h0 =>
+        rw [serverNow_some hh] at hB
+        have hB' : c :: B' <+: List.replicate (a.headLen - 1) (Cell.hd (.req rid) none) ++ [Cell.hd (.req rid) (some h0)] ++
+            (postCells rid a h0).take ((postCells rid a h0).length - a.hold) := by simpa [headCells] using hB
+        have hc : startsGarbage (c :: B') = false := by
+          cases hj : a.headLen - 1 with
+          | zero =>
+            rw [hj] at hB'
+            simp only [List.replicate_zero, List.nil_append, List.cons_append, List.cons_prefix_cons] at hB'
+            rw [hB'.1]; rfl
+          | succ j =>
+            rw [hj] at hB'
+            simp only [List.replicate_succ, List.cons_append, List.cons_prefix_cons] at hB'
+            rw [hB'.1]; rfl
+        unfold scanHead at hs
+        rw [hc] at hs
+        simp only [Bool.false_eq_true, if_false] at hs
+        obtain ⟨q1, q2, q3⟩ := findHead_prefix (.req rid) h0 _ (a.headLen - 1) (c :: B') 0 n hd hB' hs
+        subst q1
+        exact ⟨rfl, rfl, by omega, by simpa [headCells] using q3⟩
+
 theorem getResponse_prov {A : Nat → Attempt → Prop} {s s' : State} {c k rid : Nat} {rc : ReqCfg} {a : Attempt}
     {cn0 : Conn} {sk : Sock} {out : RespOut}
     (p : Prov A s) (hc : s.conns[c]? = some cn0) (hk : cn0.sock = some k) (hsk : s.socks[k]? = some sk)
-    (hin : sk.inbound = serverCells rid a ∨ sk.inbound = []) (hA : A rid a)
+    (hin : (∃ H, NoHd H ∧ sk.inbound = H ++ serverNow rid a) ∨ sk.inbound = []) (hA : A rid a)
     (h : getResponse s c k rid rc = (s', out)) : Prov A s' := by
   unfold getResponse at h
   have pF := (forget_safe p c).prov p
@@ -1994,27 +3529,25 @@ theorem getResponse_prov {A : Nat → Attempt → Prop} {s s' : State} {c k rid 
       · exact key _ hp2 hr2 (fun cn' hcn' => by rw [hc2] at hcn'; cases hcn'; exact Or.inr rfl)
     | ok hd =>
       -- what the head parser found
-      obtain ⟨B, n, f1, f2, f3⟩ := hm hd rfl
+      obtain ⟨B, n, f1, fg, f2, f3⟩ := hm hd rfl
       have hB := f3 r0 sk hr1 hsk1
       have hbuf0 : r0.buf = [] := by rw [← hr0]
       rw [hbuf0, List.nil_append] at hB
       obtain ⟨rs2, sk2, g1, g2, g3⟩ := rel.stream r0 sk hr1 hsk1
       rw [hr2] at g1; cases g1
       rw [hbuf0, List.nil_append] at g3
-      have hserver : ∃ h0, a.head = some h0 ∧ sk.inbound = headCells rid a.headLen h0 ++ bodyCells rid a := by
-        rcases hin with e | e
-        · cases hh : a.head with
-          | none =>
-            rw [e, serverCells_none hh] at hB
-            rw [findHead_nil_prefix B 0 hB] at f1; cases f1
-          | some h0 => exact ⟨h0, rfl, by rw [e, serverCells_some hh]⟩
+      have hserver : a.head = some hd ∧ sk.inbound = serverNow rid a ∧ n = a.headLen - 1 + 1 ∧ headCells rid a.headLen hd <+: B := by
+        rcases hin with ⟨H, hH, e⟩ | e
         · rw [e] at hB
-          rw [findHead_nil_prefix B 0 hB] at f1; cases f1
-      obtain ⟨h0, hh0, hinb⟩ := hserver
-      rw [hinb] at hB g3
-      obtain ⟨q1, q2, q3⟩ := findHead_prefix (.req rid) h0 (bodyCells rid a) (a.headLen - 1) B 0 n hd
-        (by simpa [headCells] using hB) f1
-      subst q1
+          obtain ⟨q0, q1, q2, q3⟩ := scanHead_server hH hB f1 fg
+          subst q0
+          exact ⟨q1, by simpa using e, q2, q3⟩
+        · rw [e] at hB
+          have : B = [] := List.prefix_nil.mp hB
+          subst this
+          simp [scanHead, startsGarbage, findHead] at f1
+      obtain ⟨hh0, hinb, q2, q3⟩ := hserver
+      rw [hinb, serverNow_some hh0] at g3
       have hmm : m = headCells rid a.headLen hd := by
         obtain ⟨t, ht⟩ := q3
         rw [f2, ← ht, q2]
@@ -2022,41 +3555,44 @@ theorem getResponse_prov {A : Nat → Attempt → Prop} {s s' : State} {c k rid 
         exact List.take_left' (by simp)
       rw [hmm] at g3
       simp only [List.append_assoc] at g3
-      have hstream : b ++ sk2.inbound = bodyCells rid a := List.append_cancel_left g3
+      have hstream : b ++ sk2.inbound <+: postCells rid a hd := by
+        rw [List.append_cancel_left g3]; exact List.take_prefix _ _
       have hrid : r0.rid = rid := by rw [← hr0]
       have hish : r0.isHead = rc.isHead := by rw [← hr0]
       -- the state after `begin()`
       have fin : ∀ s5 : State, HP k c sF s5 →
-          s5.resps[sF.resps.length]? = some { r0 with buf := b, length := initLength hd rc.isHead, status := hd.status } →
+          s5.resps[sF.resps.length]? = some { r0 with buf := b, length := initLength hd rc.isHead, status := hd.status, chunked := hd.chunked } →
           s5.socks[k]? = some sk2 →
           (∀ cn' : Conn, s5.conns[c]? = some cn' → cn'.sock = none ∨ (cn'.sock = some k ∧ cn'.pending = some sF.resps.length)) →
           Prov A s5 := by
         intro s5 hp5 hr5 hs5 hc5
-        refine open_new (a := a) (h := hd) pF hcn hk' hpend hp5 hr5 hs5 hc5 ?_ hh0 rfl ?_ ?_ ?_ ?_
+        refine open_new (a := a) (h := hd) pF hcn hk' hpend hp5 hr5 hs5 hc5 ?_ hh0 rfl ?_ ?_ ?_ ?_ rfl ?_ ?_
         · show A r0.rid a; rw [hrid]; exact hA
         · show r0.fp = some k; rw [← hr0]
         · show r0.delivered = []; rw [← hr0]
         · show initLength hd rc.isHead = initLength hd r0.isHead; rw [hish]
-        · show b ++ sk2.inbound = bodyCells r0.rid a; rw [hrid]; exact hstream
+        · show b ++ sk2.inbound <+: postCells r0.rid a hd; rw [hrid]; exact hstream
+        · show r0.chunkLeft = none; rw [← hr0]
+        · show r0.hcLeft = none; rw [← hr0]
       dsimp only at h
       have hfin : Prov A
-          (if (hd.close || (initLength hd rc.isHead).isNone) = true then
-            connClose (setConn (setResp s2 sF.resps.length fun x => { x with length := initLength hd rc.isHead, status := hd.status }) c fun x => { x with http := .idle }) c
-          else setConn (setConn (setResp s2 sF.resps.length fun x => { x with length := initLength hd rc.isHead, status := hd.status }) c fun x => { x with http := .idle }) c fun x => { x with pending := some sF.resps.length }) := by
-        generalize hs3 : (setResp s2 sF.resps.length fun x => { x with length := initLength hd rc.isHead, status := hd.status }) = s3
+          (if (hd.close || ((initLength hd rc.isHead).isNone && !hd.chunked)) = true then
+            connClose (setConn (setResp s2 sF.resps.length fun x => { x with length := initLength hd rc.isHead, status := hd.status, chunked := hd.chunked }) c fun x => { x with http := .idle }) c
+          else setConn (setConn (setResp s2 sF.resps.length fun x => { x with length := initLength hd rc.isHead, status := hd.status, chunked := hd.chunked }) c fun x => { x with http := .idle }) c fun x => { x with pending := some sF.resps.length }) := by
+        generalize hs3 : (setResp s2 sF.resps.length fun x => { x with length := initLength hd rc.isHead, status := hd.status, chunked := hd.chunked }) = s3
         have hp3 : HP k c sF s3 := by rw [← hs3]; exact hp2.setResp _
-        have hr3 : s3.resps[sF.resps.length]? = some { r0 with buf := b, length := initLength hd rc.isHead, status := hd.status } := by
+        have hr3 : s3.resps[sF.resps.length]? = some { r0 with buf := b, length := initLength hd rc.isHead, status := hd.status, chunked := hd.chunked } := by
           rw [← hs3]; simp [setResp, List.getElem?_modify, hr2]
         have hsk3 : s3.socks[k]? = some sk2 := by rw [← hs3]; exact g2
         have hc3 : s3.conns[c]? = some cn := by rw [← hs3]; exact hc2
         generalize hs4 : (setConn s3 c fun x => { x with http := .idle }) = s4
         have hp4 : HP k c sF s4 := by rw [← hs4]; exact hp3.setConn _
-        have hr4 : s4.resps[sF.resps.length]? = some { r0 with buf := b, length := initLength hd rc.isHead, status := hd.status } := by
+        have hr4 : s4.resps[sF.resps.length]? = some { r0 with buf := b, length := initLength hd rc.isHead, status := hd.status, chunked := hd.chunked } := by
           rw [← hs4]; exact hr3
         have hsk4 : s4.socks[k]? = some sk2 := by rw [← hs4]; exact hsk3
         have hc4 : s4.conns[c]? = some { cn with http := .idle } := by
           rw [← hs4]; simp [setConn, List.getElem?_modify, hc3]
-        by_cases hw : (hd.close || (initLength hd rc.isHead).isNone) = true
+        by_cases hw : (hd.close || ((initLength hd rc.isHead).isNone && !hd.chunked)) = true
         · rw [if_pos hw]
           obtain ⟨e1, e2, e3⟩ := connClose_fields_nopending s4 c _ hc4 hpend
           refine fin _ (hp4.connClose _ hc4 hpend) (by rw [e1]; exact hr4) (by rw [e2]; exact hsk4) ?_
@@ -2168,10 +3704,134 @@ theorem connClose_closes_pending {s : State} {c r : Nat} {cn : Conn} (hc : s.con
   simp only [hc, hp]
   split <;> exact closeFp_closed _ _
 
+theorem postCells_noHd (rid : Nat) (a : Attempt) (h : Head) : NoHd (postCells rid a h) := by
+  intro c hc t fin e
+  subst e
+  have hchunk : ∀ (tg : Tag) (sizes body : List Nat), Cell.hd t fin ∉ chunkCells tg sizes body := by
+    intro tg sizes
+    induction sizes with
+    | nil =>
+      intro body
+      cases body <;> simp [chunkCells, oneChunk]
+    | cons n ns ih =>
+      intro body
+      cases body with
+      | nil => simp [chunkCells]
+      | cons b bs =>
+        simp only [chunkCells]
+        split
+        · exact ih _
+        · intro hm
+          rcases List.mem_append.mp hm with hm | hm
+          · simp [oneChunk] at hm
+            have := List.mem_of_mem_take hm
+            simp at this
+          · exact ih _ hm
+  have htr : ∀ (tg : Tag) (ms : List Nat), Cell.hd t fin ∉ trailerCells tg ms := by
+    intro tg ms
+    induction ms with
+    | nil => simp [trailerCells]
+    | cons m ms ih =>
+      intro hm
+      simp only [trailerCells, List.mem_append, List.mem_replicate, List.mem_cons, List.mem_nil_iff, or_false] at hm
+      rcases hm with (⟨_, hm⟩ | hm | hm) | hm
+      · cases hm
+      · cases hm
+      · cases hm
+      · exact ih hm
+  unfold postCells framedCells at hc
+  rcases List.mem_append.mp hc with hc | hc
+  · split at hc
+    · rcases List.mem_append.mp hc with hc | hc
+      · rcases List.mem_append.mp hc with hc | hc
+        · exact hchunk _ _ _ hc
+        · simp [lastChunk] at hc
+      · exact htr _ _ hc
+    · simp at hc
+  · simp at hc
+
+theorem serverHeld_noHd (rid : Nat) (a : Attempt) : NoHd (serverHeld rid a) := by
+  unfold serverHeld
+  split
+  · intro c hc; cases hc
+  · rename_i h _
+    intro c hc
+    exact postCells_noHd rid a h c (List.mem_of_mem_drop hc)
+
+/-- every byte the server sends after the head carries the tag of the request it answers, or `stray` -/
+theorem postCells_tags (rid : Nat) (a : Attempt) (h : Head) :
+    ∀ c ∈ postCells rid a h, cellTag c = .req rid ∨ cellTag c = .stray := by
+  have hchunk : ∀ (sizes body : List Nat), ∀ c ∈ chunkCells (.req rid) sizes body, cellTag c = .req rid := by
+    intro sizes
+    induction sizes with
+    | nil =>
+      intro body c hc
+      cases body with
+      | nil => simp [chunkCells] at hc
+      | cons b bs =>
+        simp only [chunkCells, oneChunk, List.mem_append, List.mem_cons, List.mem_map, List.mem_nil_iff, or_false] at hc
+        rcases hc with (((rfl | rfl | rfl) | ⟨v, _, rfl⟩) | rfl | rfl) <;> rfl
+    | cons n ns ih =>
+      intro body c hc
+      cases body with
+      | nil => simp [chunkCells] at hc
+      | cons b bs =>
+        simp only [chunkCells] at hc
+        split at hc
+        · exact ih _ c hc
+        · rcases List.mem_append.mp hc with hc | hc
+          · simp only [oneChunk, List.mem_append, List.mem_cons, List.mem_map, List.mem_nil_iff, or_false] at hc
+            rcases hc with (((rfl | rfl | rfl) | ⟨v, _, rfl⟩) | rfl | rfl) <;> rfl
+          · exact ih _ c hc
+  have htr : ∀ (ms : List Nat), ∀ c ∈ trailerCells (.req rid) ms, cellTag c = .req rid := by
+    intro ms
+    induction ms with
+    | nil => intro c hc; simp [trailerCells] at hc; rcases hc with rfl | rfl <;> rfl
+    | cons m ms ih =>
+      intro c hc
+      simp only [trailerCells, List.mem_append, List.mem_replicate, List.mem_cons, List.mem_nil_iff, or_false] at hc
+      rcases hc with (⟨_, rfl⟩ | rfl | rfl) | hc
+      · rfl
+      · rfl
+      · rfl
+      · exact ih c hc
+  intro c hc
+  unfold postCells framedCells at hc
+  rcases List.mem_append.mp hc with hc | hc
+  · left
+    split at hc
+    · rcases List.mem_append.mp hc with hc | hc
+      · rcases List.mem_append.mp hc with hc | hc
+        · exact hchunk _ _ c hc
+        · simp [lastChunk] at hc; rcases hc with rfl | rfl | rfl <;> rfl
+      · exact htr _ c hc
+    · obtain ⟨v, _, rfl⟩ := List.mem_map.mp hc; rfl
+  · right
+    obtain ⟨v, _, rfl⟩ := List.mem_map.mp hc; rfl
+
+theorem serverCells_tags (rid : Nat) (a : Attempt) : ∀ c ∈ serverCells rid a, cellTag c = .req rid ∨ cellTag c = .stray := by
+  intro c hc
+  unfold serverCells at hc
+  split at hc
+  · simp at hc
+  · rcases List.mem_append.mp hc with hc | hc
+    · left
+      simp only [headCells, List.mem_append, List.mem_replicate, List.mem_singleton] at hc
+      rcases hc with ⟨_, rfl⟩ | rfl <;> rfl
+    · exact postCells_tags _ _ _ c hc
+
+/-- what is sent at once and what is held back are, together, the whole reaction -/
+theorem serverNow_held (rid : Nat) (a : Attempt) : serverNow rid a ++ serverHeld rid a = serverCells rid a := by
+  unfold serverNow serverHeld serverCells
+  split
+  · rfl
+  · simp
+
 /-- case (B): a request was written to a socket whose previous response is still being read;
 closing the connection (which `urlopen` is about to do) restores the invariant -/
 theorem send_dirty_close {A : Nat → Attempt → Prop} {s : State} {c k r0 : Nat} {cn : Conn} (g : Sock → Sock) (e : Ev)
-    (p : Prov A s) (hc : s.conns[c]? = some cn) (hk : cn.sock = some k) (hp : cn.pending = some r0) :
+    (p : Prov A s) (hc : s.conns[c]? = some cn) (hk : cn.sock = some k) (hp : cn.pending = some r0)
+    (hh : ∀ x, (g x).held = x.held ∨ NoHd (g x).held) :
     Prov A (connClose (setSock (logEv s e) k g) c) := by
   have p1 : Prov A (connClose s c) := (connClose_safe s c).prov p
   have nr : NoReader (connClose s c) k := by
@@ -2182,7 +3842,7 @@ theorem send_dirty_close {A : Nat → Attempt → Prop} {s : State} {c k r0 : Na
     have hcl := connClose_closes_pending hc hp
     rw [respFpClosed_iff] at hcl
     rw [hcl rs' hi] at hfp; cases hfp
-  have p2 : Prov A (setSock (connClose s c) k g) := (setSock_safe _ k g (Or.inr nr)).prov p1
+  have p2 : Prov A (setSock (connClose s c) k g) := (setSock_safe _ k g (Or.inr nr) hh).prov p1
   refine (safe_core ?_ ?_ ?_).prov p2
   · show (connClose (setSock (logEv s e) k g) c).conns = (connClose s c).conns
     rw [connClose_conns, connClose_conns]; rfl
@@ -2190,9 +3850,10 @@ theorem send_dirty_close {A : Nat → Attempt → Prop} {s : State} {c k r0 : Na
   · rw [connClose_socks]; simp [setSock, connClose_socks, logEv]
 
 /-- a successful `connect()`: a brand-new socket for connection `c` -/
-theorem connect_ok_safe {A : Nat → Attempt → Prop} {f : Focus} {s : State} (p : ProvF A s f) (c : Nat) (x : Sock) (ev : Ev) (b : Bool) :
+theorem connect_ok_safe {A : Nat → Attempt → Prop} {f : Focus} {s : State} (p : ProvF A s f) (c : Nat) (x : Sock) (ev : Ev) (b : Bool)
+    (hx : x.held = []) :
     Safe s (setConn (logEv { s with socks := s.socks ++ [x] } ev) c fun y => { y with sock := some s.socks.length, proxyConnected := b }) := by
-  refine ⟨by simp [setConn, logEv], Nat.le_refl _, st_of_eq rfl, ?_, ?_, ?_⟩
+  refine ⟨by simp [setConn, logEv], Nat.le_refl _, st_of_eq rfl, ?_, ?_, ?_, (appendSock_safe s x hx).hd⟩
   · intro i rs' k' sk h1 h2 h3
     refine ⟨sk, ?_, rfl⟩
     have hk : k' < s.socks.length := by
@@ -2201,7 +3862,7 @@ theorem connect_ok_safe {A : Nat → Attempt → Prop} {f : Focus} {s : State} (
       · rw [List.getElem?_eq_none h'] at h3; cases h3
     show (s.socks ++ [x])[k']? = some sk
     rw [List.getElem?_append_left hk]; exact h3
-  · intro i rs' h; exact Or.inl ⟨rs', h, rfl, rfl, rfl, Or.inr ⟨rfl, rfl, rfl⟩⟩
+  · intro i rs' h; exact Or.inl ⟨rs', h, rfl, rfl, rfl, Or.inr ⟨rfl, rfl, rfl, rfl⟩⟩
   · intro c' cn' k' h1 h2
     have h1' : (s.conns.modify c fun y => { y with sock := some s.socks.length, proxyConnected := b })[c']? = some cn' := h1
     rw [List.getElem?_modify] at h1'
@@ -2239,9 +3900,9 @@ theorem connect_spec {A : Nat → Attempt → Prop} {s s' : State} {c : Nat} {a 
       (∃ sk : Sock, s'.socks[k]? = some sk ∧ sk.inbound = []) ∧ s.socks.length ≤ k) := by
   unfold connect at h
   have ps : Safe s (logEv { s with socks := s.socks ++ [{ seg := a.seg }] } (.connect s.socks.length)) :=
-    (appendSock_safe s _).trans (logEv_safe _ _)
+    (appendSock_safe s _ rfl).trans (logEv_safe _ _)
   cases hcon : a.connect <;> simp only [hcon] at h <;> cases h
-  · refine ⟨(connect_ok_safe p c _ _ _).prov p, rfl, (by intro e he; cases he), ?_⟩
+  · refine ⟨(connect_ok_safe p c _ _ _ rfl).prov p, rfl, (by intro e he; cases he), ?_⟩
     intro k hk; cases hk
     refine ⟨by simp [setConn, logEv, List.getElem?_modify, hc], ⟨{ seg := a.seg }, ?_, rfl⟩, Nat.le_refl _⟩
     simp [setConn, logEv]
@@ -2253,25 +3914,28 @@ theorem connect_spec {A : Nat → Attempt → Prop} {s s' : State} {c : Nat} {a 
 /-- what `_make_request` knows once `conn.request(...)` has written the request to socket `k` -/
 def Sent (A : Nat → Attempt → Prop) (s' : State) (c k rid : Nat) (a : Attempt) : Prop :=
   Settled s' c ∧ ∃ cn : Conn, s'.conns[c]? = some cn ∧ cn.sock = some k ∧
-    ((cn.pending = none ∧ Prov A s' ∧ ∃ sk : Sock, s'.socks[k]? = some sk ∧ sk.inbound = serverCells rid a) ∨
+    ((cn.pending = none ∧ Prov A s' ∧ ∃ (sk : Sock) (H : List Cell), s'.socks[k]? = some sk ∧ NoHd H ∧
+        sk.inbound = H ++ serverNow rid a) ∨
      (cn.pending.isSome = true ∧ Prov A (connClose s' c)))
 
 theorem send_step {A : Nat → Attempt → Prop} {t : State} {c k : Nat} {cnt : Conn} {skt : Sock}
     (p : Prov A t) (hc : t.conns[c]? = some cnt) (hk : cnt.sock = some k) (hsk : t.socks[k]? = some skt)
     (hin : skt.inbound = []) (hst : Settled t c) (rid : Nat) (a : Attempt) :
-    Sent A (setSock (logEv t (.send k)) k fun sk => { sk with inbound := sk.inbound ++ serverCells rid a, after := a.after })
+    Sent A (setSock (logEv t (.send k)) k fun sk =>
+        { sk with inbound := sk.inbound ++ (sk.held ++ serverNow rid a), held := serverHeld rid a, after := a.after })
       c k rid a := by
   refine ⟨settled_congr hst rfl (fun cn' h => ⟨cn', h, rfl⟩), cnt, hc, hk, ?_⟩
   cases hp : cnt.pending with
   | none =>
     left
     have nr := noReader_of_nopending p hc hk hp
-    refine ⟨rfl, ((logEv_safe t _).trans (setSock_safe _ k _ (Or.inr nr))).prov p, ?_⟩
-    refine ⟨{ skt with inbound := skt.inbound ++ serverCells rid a, after := a.after }, ?_, by simp [hin]⟩
+    refine ⟨rfl, ((logEv_safe t _).trans (setSock_safe _ k _ (Or.inr nr) (fun x => Or.inr (serverHeld_noHd rid a)))).prov p, ?_⟩
+    refine ⟨{ skt with inbound := skt.inbound ++ (skt.held ++ serverNow rid a), held := serverHeld rid a, after := a.after },
+      skt.held, ?_, p.heldB k skt hsk, (by simp [hin])⟩
     simp [setSock, logEv, List.getElem?_modify, hsk]
   | some r0 =>
     right
-    exact ⟨rfl, send_dirty_close _ _ p hc hk hp⟩
+    exact ⟨rfl, send_dirty_close _ _ p hc hk hp (fun x => Or.inr (serverHeld_noHd rid a))⟩
 
 theorem connRequest_spec {A : Nat → Attempt → Prop} {s s' : State} {c rid : Nat} {a : Attempt} {ek : Except Exc Nat}
     (p : Prov A s) (hl : Lease s c) (h : connRequest s c rid a = (s', ek)) :
@@ -2380,7 +4044,7 @@ def makeTail (s : State) (c rid : Nat) (rc : ReqCfg) (ek : Except Exc Nat) : Sta
 theorem attachResp_prov {A : Nat → Attempt → Prop} {s : State} (c r : Nat) (rc : ReqCfg) (p : Prov A s) :
     Prov A (attachResp s c r rc).1 := by
   have p1 := (setResp_safe s r (fun x => { x with conn := if rc.release then none else some c, hasPool := true })
-    (fun x => ⟨rfl, rfl, rfl, Or.inr ⟨rfl, rfl, rfl⟩⟩)).prov p
+    (fun x => ⟨rfl, rfl, rfl, Or.inr ⟨rfl, rfl, rfl, rfl⟩⟩)).prov p
   unfold attachResp
   generalize (setResp s r fun x => { x with conn := if rc.release then none else some c, hasPool := true }) = t at p1
   dsimp only
@@ -2406,7 +4070,7 @@ theorem makeRequest_spec {A : Nat → Attempt → Prop} {s s' : State} {c rid : 
   dsimp only at h
   -- the tail after a `getresponse()` on a clean connection
   have tail : ∀ (k : Nat) (cn0 : Conn) (sk : Sock), Prov A s1 → s1.conns[c]? = some cn0 → cn0.sock = some k →
-      s1.socks[k]? = some sk → (sk.inbound = serverCells rid a ∨ sk.inbound = []) →
+      s1.socks[k]? = some sk → ((∃ H, NoHd H ∧ sk.inbound = H ++ serverNow rid a) ∨ sk.inbound = []) →
       makeTail s1 c rid rc (.ok k) = (s', out) →
       (∀ r, out = .resp r → Prov A s') ∧
       (∀ e, out = .exc e → Prov A (connClose s' c) ∧ (Prov A s' ∨ e = translateRecv (exc Gen.cResponseNotReady))) := by
@@ -2428,8 +4092,8 @@ theorem makeRequest_spec {A : Nat → Attempt → Prop} {s s' : State} {c rid : 
   cases ek with
   | ok k =>
     obtain ⟨hst, cn, hc, hk, hcase⟩ := spK k rfl
-    rcases hcase with ⟨hp, p1, sk, hsk, hin⟩ | ⟨hp, pc⟩
-    · exact tail k cn sk p1 hc hk hsk (Or.inl hin) h
+    rcases hcase with ⟨hp, p1, sk, H, hsk, hH, hin⟩ | ⟨hp, pc⟩
+    · exact tail k cn sk p1 hc hk hsk (Or.inl ⟨H, hH, hin⟩) h
     · unfold sendFix makeTail at h
       dsimp only at h
       rw [getResponse_notReady hst hc hp] at h
@@ -2649,7 +4313,7 @@ theorem step_prov {A : Nat → Attempt → Prop} {s : State} (op : Op) (p : Prov
   | closePool => exact closePool_prov p
 
 theorem init_prov (A : Nat → Attempt → Prop) (n : Nat) (b pr : Bool) : Prov A (init n b pr) := by
-  refine ⟨?_, ?_, ?_, ?_, ?_, ?_, by intro _ _ _ h; cases h⟩ <;> simp [init]
+  refine ⟨?_, ?_, ?_, ?_, ?_, ?_, (by intro _ _ _ h; cases h), ?_⟩ <;> simp [init]
 
 /-! ## histories -/
 
@@ -2677,21 +4341,28 @@ theorem run_prov (ops : List Op) (n : Nat) (b pr : Bool) : Prov (Scripted ops) (
 def ownBytes (r : Resp) : Bool := r.delivered.all fun c => cellTag c == .req r.rid
 
 /-- the scripted server marks as `stray` only bytes that lie beyond the declared end of the reply:
-either there are none, or the reply is one that never has a body (1xx, 204, 304), or its
-`Content-Length` does not exceed the body actually sent -/
+either there are none, or the reply is chunked (the chunked coding delimits itself), or it is one that
+never has a body (1xx, 204, 304), or its `Content-Length` does not exceed the body actually sent -/
 def WellFramed (a : Attempt) : Prop :=
   a.stray = [] ∨ ∃ h, a.head = some h ∧
-    ((h.status = 204 ∨ h.status = 304 ∨ (100 ≤ h.status ∧ h.status < 200)) ∨ ∃ n, h.cl = some n ∧ n ≤ a.body.length)
+    (h.chunked = true ∨ (h.status = 204 ∨ h.status = 304 ∨ (100 ≤ h.status ∧ h.status < 200)) ∨
+      ∃ n, h.cl = some n ∧ n ≤ a.body.length)
 
 theorem prefix_body_of_framed {rs : Resp} {a : Attempt} {h : Head} (hw : WellFramed a) (hh : a.head = some h)
-    (hp : rs.delivered <+: bodyCells rs.rid a) (hl : ∀ n, initLength h rs.isHead = some n → rs.delivered.length ≤ n) :
+    (hp : rs.delivered <+: deliverable rs.rid a h) (hl : ∀ n, lenBound h rs.isHead = some n → rs.delivered.length ≤ n) :
     rs.delivered <+: a.body.map (Cell.body (.req rs.rid)) := by
+  by_cases hc : h.chunked = true
+  · simpa [deliverable, hc, payloadCells] using hp
+  have hc : h.chunked = false := by simpa using hc
+  have hp : rs.delivered <+: bodyCells rs.rid a := by simpa [deliverable, hc] using hp
+  rw [lenBound_plain hc] at hl
   have hbody : a.body.map (Cell.body (.req rs.rid)) <+: bodyCells rs.rid a := List.prefix_append _ _
   rcases hw with hw | ⟨h', hh', hw⟩
-  · simpa [bodyCells, hw] using hp
+  · simpa [bodyCells, payloadCells, strayCells, hw] using hp
   · rw [hh] at hh'; cases hh'
     have hlen : rs.delivered.length ≤ (a.body.map (Cell.body (.req rs.rid))).length := by
-      rcases hw with hw | ⟨n, hn, hle⟩
+      rcases hw with hw | hw | ⟨n, hn, hle⟩
+      · rw [hc] at hw; cases hw
       · have : initLength h rs.isHead = some 0 := by
           unfold initLength noBody
           rcases hw with e | e | ⟨e1, e2⟩ <;> simp [*]
@@ -2699,7 +4370,7 @@ theorem prefix_body_of_framed {rs : Resp} {a : Attempt} {h : Head} (hw : WellFra
         omega
       · by_cases hnb : noBody h.status rs.isHead = true
         · have := hl 0 (by simp [initLength, hnb]); omega
-        · have := hl n (by simp [initLength, hnb, hn]); simp; omega
+        · have := hl n (by simp [initLength, hnb, hn, hc]); simp; omega
     exact List.prefix_of_prefix_length_le hp hbody hlen
 
 theorem ownBytes_of_prefix {rs : Resp} {l : List Nat} (hp : rs.delivered <+: l.map (Cell.body (.req rs.rid))) :
